@@ -26,6 +26,7 @@ Section PackProofs.
   Notation LRec := (lib_records Name Body CMap pack_rr).
   Notation PInto := (pack_into_gen Name Body CMap pack_name pack_rr).
   Notation TPG := (try_pack_gen Name Body CMap name_zero cm_empty cm_len pack_name pack_rr q_len rr_len).
+  Notation Klen := (scrub_len Name Body q_len rr_len).
   Notation TP := (try_pack Name Body CMap name_zero cm_empty cm_len pack_name pack_rr q_len rr_len).
   Notation LP := (lib_pack Name Body CMap cm_empty pack_name pack_rr q_len rr_len).
   Notation LFrom := (lib_pack_from Name Body CMap pack_name pack_rr q_len rr_len).
@@ -38,29 +39,38 @@ Section PackProofs.
     pack_name n b off cm c = Some (o, b', cm') -> length b' = length b.
   Definition in_place_rr : Prop := forall h bd b off cm c he o b' cm',
     pack_rr h bd b off cm c = Some (he, o, b', cm') -> length b' = length b.
-  (* a successful pack is determined by the octets before [off]: it writes every octet
-     it advances over and reads nothing behind its starting point *)
-  Definition prefix_determined_name : Prop := forall n b1 b2 off cm c o1 b1' cm1 o2 b2' cm2,
-    agree off b1 b2 -> pack_name n b1 off cm c = Some (o1, b1', cm1) -> pack_name n b2 off cm c = Some (o2, b2', cm2) ->
-    o1 = o2 /\ cm1 = cm2 /\ agree o1 b1' b2'.
-  Definition prefix_determined_rr : Prop := forall h bd b1 b2 off cm c he1 o1 b1' cm1 he2 o2 b2' cm2,
-    agree off b1 b2 -> pack_rr h bd b1 off cm c = Some (he1, o1, b1', cm1) -> pack_rr h bd b2 off cm c = Some (he2, o2, b2', cm2) ->
-    o1 = o2 /\ cm1 = cm2 /\ agree o1 b1' b2'.
-  (* on buffers of one length, success does not depend on what lies behind [off] *)
+  (* frame condition: a pack reads nothing from the buffer; the offsets it returns and the
+     dictionary do not depend on buffer content, what it writes is the same wherever the
+     buffers agreed, and what it does not write stays as it was.  (This holds for packDataA
+     too: the four octets it skips simply stay.) *)
+  Definition frame_name : Prop := forall K n b1 b2 off cm c o1 b1' cm1 o2 b2' cm2,
+    agree K b1 b2 -> pack_name n b1 off cm c = Some (o1, b1', cm1) -> pack_name n b2 off cm c = Some (o2, b2', cm2) ->
+    o1 = o2 /\ cm1 = cm2 /\ agree K b1' b2'.
+  Definition frame_rr : Prop := forall K h bd b1 b2 off cm c he1 o1 b1' cm1 he2 o2 b2' cm2,
+    agree K b1 b2 -> pack_rr h bd b1 off cm c = Some (he1, o1, b1', cm1) -> pack_rr h bd b2 off cm c = Some (he2, o2, b2', cm2) ->
+    o1 = o2 /\ cm1 = cm2 /\ agree K b1' b2'.
+  (* a successful pack ends inside the buffer *)
+  Definition in_bounds_name : Prop := forall n b off cm c o b' cm',
+    pack_name n b off cm c = Some (o, b', cm') -> o <= length b'.
+  Definition in_bounds_rr : Prop := forall h bd b off cm c he o b' cm',
+    pack_rr h bd b off cm c = Some (he, o, b', cm') -> o <= length b'.
+  (* on buffers of one length, success does not depend on content *)
   Definition same_success_name : Prop := forall n b1 b2 off cm c,
-    agree off b1 b2 -> length b1 = length b2 -> (pack_name n b1 off cm c = None <-> pack_name n b2 off cm c = None).
+    length b1 = length b2 -> (pack_name n b1 off cm c = None <-> pack_name n b2 off cm c = None).
   Definition same_success_rr : Prop := forall h bd b1 b2 off cm c,
-    agree off b1 b2 -> length b1 = length b2 -> (pack_rr h bd b1 off cm c = None <-> pack_rr h bd b2 off cm c = None).
-  (* the library's sizing contract: Len() bounds what a pack writes, and a buffer with
-     room for Len() never fails for lack of room *)
-  Definition sized_name : Prop := forall n b off cm c o b' cm',
+    length b1 = length b2 -> (pack_rr h bd b1 off cm c = None <-> pack_rr h bd b2 off cm c = None).
+  (* the library's sizing contract: Len() bounds what a pack advances over ... *)
+  Definition len_bounds_name : Prop := forall n b off cm c o b' cm',
+    pack_name n b off cm c = Some (o, b', cm') -> o + 4 <= off + q_len n.
+  Definition len_bounds_rr : Prop := forall h bd b off cm c he o b' cm',
+    pack_rr h bd b off cm c = Some (he, o, b', cm') -> o <= off + rr_len (rh_name Name h) bd.
+  (* ... and a buffer with room for Len() never fails for lack of room *)
+  Definition len_suffices_name : Prop := forall n b off cm c o b' cm',
     pack_name n b off cm c = Some (o, b', cm') ->
-    o + 4 <= off + q_len n /\
-    forall b2, agree off b b2 -> off + q_len n < length b2 -> pack_name n b2 off cm c <> None.
-  Definition sized_rr : Prop := forall h bd b off cm c he o b' cm',
+    forall b2, off + q_len n < length b2 -> pack_name n b2 off cm c <> None.
+  Definition len_suffices_rr : Prop := forall h bd b off cm c he o b' cm',
     pack_rr h bd b off cm c = Some (he, o, b', cm') ->
-    o <= off + rr_len (rh_name Name h) bd /\
-    forall b2, agree off b b2 -> off + rr_len (rh_name Name h) bd < length b2 -> pack_rr h bd b2 off cm c <> None.
+    forall b2, off + rr_len (rh_name Name h) bd < length b2 -> pack_rr h bd b2 off cm c <> None.
 
   (* ---------------------------------------------------------------- *)
   (** ** The message is a read-only input of the pooled path *)
@@ -83,50 +93,50 @@ Section PackProofs.
     apply pooled_records_msg.
   Qed.
 
-  Lemma message_untouched_l : forall st m, tp_msg Name Body CMap (TP st m) = m.
+  Lemma message_untouched_gen : forall scrub st m, tp_msg Name Body CMap (TPG scrub view_shim st m) = m.
   Proof.
-    intros st m. unfold try_pack, try_pack_gen.
+    intros scrub st m. unfold try_pack_gen.
     destruct (preflight _ _ _ _ _); try reflexivity.
-    pose proof (pack_into_msg st m opt
-      (if m_compress Name Body m && msg_compressible Name Body m
-       then Some match ps_cmap Name Body CMap st with None => cm_empty | Some x => x end else None)
-      (m_compress Name Body m && msg_compressible Name Body m)) as H.
-    destruct (PInto _ _ _ _ _ _) as [[ok w] m1]. cbn [snd] in H. subst m1.
-    destruct ok; reflexivity.
+    match goal with |- context [PInto view_shim ?st0 m opt ?cm ?c] =>
+      pose proof (pack_into_msg st0 m opt cm c) as H; destruct (PInto view_shim st0 m opt cm c) as [[ok w] m1] end.
+    cbn [snd] in H. subst m1. destruct ok; reflexivity.
   Qed.
+
+  Lemma message_untouched_l : forall st m, tp_msg Name Body CMap (TP st m) = m.
+  Proof. intros. apply message_untouched_gen. Qed.
 
   (* ---------------------------------------------------------------- *)
   (** ** Declining produces no output; handling produces exactly one *)
 
-  Lemma consumed_shape : forall v st m,
-    let r := TPG v st m in
+  Lemma consumed_shape : forall scrub v st m,
+    let r := TPG scrub v st m in
     (tp_handled Name Body CMap r = false /\ tp_consumed Name Body CMap r = []) \/
     (tp_handled Name Body CMap r = true /\ exists b off, tp_consumed Name Body CMap r = [slice3 b off off]).
   Proof.
-    intros v st m. unfold try_pack_gen.
+    intros scrub v st m. unfold try_pack_gen.
     destruct (preflight _ _ _ _ _); try (left; split; reflexivity).
     destruct (PInto _ _ _ _ _ _) as [[ok w] m1].
     destruct ok; [right|left]; cbn; eauto.
   Qed.
 
   (* every decision taken before the pooled state is borrowed leaves that state as it was *)
-  Lemma preflight_decline_keeps_state : forall v st m,
+  Lemma preflight_decline_keeps_state : forall scrub v st m,
     (forall o, preflight (h_rcode (m_hdr Name Body m)) (shapes Name Body (m_answer Name Body m))
                  (shapes Name Body (m_ns Name Body m)) (shapes Name Body (m_extra Name Body m))
                  (N.of_nat (msg_len Name Body q_len rr_len m)) <> Proceed o) ->
-    TPG v st m = mk_tp Name Body CMap false [] st m.
+    TPG scrub v st m = mk_tp Name Body CMap false [] st m.
   Proof.
-    intros v st m H. unfold try_pack_gen.
+    intros scrub v st m H. unfold try_pack_gen.
     destruct (preflight _ _ _ _ _); try reflexivity. exfalso. eapply H. reflexivity.
   Qed.
 
   (* ---------------------------------------------------------------- *)
   (** ** Capacity of the slice handed to the consumer *)
 
-  Lemma capacity_pinned_l : forall v st m s, In s (tp_consumed Name Body CMap (TPG v st m)) ->
+  Lemma capacity_pinned_l : forall scrub v st m s, In s (tp_consumed Name Body CMap (TPG scrub v st m)) ->
     sl_cap s = sl_len s /\ sl_reachable s = sl_bytes s.
   Proof.
-    intros v st m s Hin. destruct (consumed_shape v st m) as [[_ H]|[_ (b & off & H)]];
+    intros scrub v st m s Hin. destruct (consumed_shape scrub v st m) as [[_ H]|[_ (b & off & H)]];
       rewrite H in Hin; cbn in Hin; [contradiction|].
     destruct Hin as [<-|[]]. split; reflexivity.
   Qed.
@@ -143,16 +153,17 @@ Section PackProofs.
   Qed.
 
   Lemma pooled_questions_len : in_place_name -> forall qs out off cm c off1 out1 cm1,
-    PQs qs out off cm c = Some (off1, out1, cm1) -> length out1 = length out.
+    PQs qs out off cm c = Some (off1, out1, cm1) -> length out1 = length out /\ (off <= length out -> off1 <= length out).
   Proof.
     intros Hn. induction qs as [|q r IH]; intros out off cm c off1 out1 cm1 H; cbn in H.
-    - inversion H; reflexivity.
+    - inversion H; auto.
     - unfold pooled_question in H.
       destruct (pack_name (q_name Name q) out off cm c) as [[[o b'] cm']|] eqn:E; [|discriminate].
       change (N.to_nat question_fixed_len) with 4 in H.
       destruct (Nat.ltb_spec (length out) (o + 4)); [discriminate|].
-      apply IH in H. rewrite H. pose proof (Hn _ _ _ _ _ _ _ _ E) as Hl.
-      rewrite put16_pair_length by (rewrite Hl; exact H0). exact Hl.
+      apply IH in H. destruct H as [H Hb]. pose proof (Hn _ _ _ _ _ _ _ _ E) as Hl.
+      rewrite put16_pair_length in H, Hb by (rewrite Hl; assumption).
+      split; [lia|]. intros _. rewrite <- Hl. apply Hb. lia.
   Qed.
 
   Lemma pooled_records_len : in_place_rr -> forall v opt rcode c ss w m,
@@ -165,6 +176,24 @@ Section PackProofs.
     pose proof (Hr _ _ _ _ _ _ _ _ _ _ E) as Hl.
     destruct (v s); cbn zeta beta iota;
       (destruct ((off1 <=? _) || _); [cbn; assumption|]; rewrite IH; cbn; assumption).
+  Qed.
+
+  (* the guards of packInto keep the offset inside the pooled buffer *)
+  Lemma pooled_records_bound : in_place_rr -> forall v opt rcode c ss w m w' m',
+    PRec v opt rcode c ss w m = (true, w', m') ->
+    pw_off Name Body CMap w <= length (pw_out Name Body CMap w) ->
+    pw_off Name Body CMap w' <= length (pw_out Name Body CMap w').
+  Proof.
+    intros Hr v opt rcode c. induction ss as [|s rest IH]; intros w m w' m' HP Hb.
+    - cbn in HP. inversion HP; subst. assumption.
+    - cbn [pooled_records] in HP.
+      destruct (length (pw_out Name Body CMap w) <=? pw_off Name Body CMap w); [discriminate|].
+      destruct (pack_rr _ _ _ _ _ _) as [[[[hend off1] out1] cm1]|] eqn:E; [|discriminate].
+      pose proof (Hr _ _ _ _ _ _ _ _ _ _ E) as Hl.
+      destruct (v s); cbn zeta beta iota in HP;
+        (destruct (Nat.leb_spec off1 (pw_off Name Body CMap w)); cbn [orb] in HP; [discriminate|];
+         destruct (Nat.ltb_spec (length (pw_out Name Body CMap w)) off1); [discriminate|];
+         eapply IH; [exact HP|cbn; lia]).
   Qed.
 
   Lemma pack_into_len : in_place_name -> in_place_rr -> forall v st m opt cm c,
@@ -181,35 +210,38 @@ Section PackProofs.
     apply (pooled_questions_len Hn) in E. lia.
   Qed.
 
-  Lemma try_pack_keeps_inv : in_place_name -> in_place_rr -> forall v st m,
-    Inv st -> Inv (tp_state Name Body CMap (TPG v st m)).
+  Lemma try_pack_keeps_inv : in_place_name -> in_place_rr -> forall scrub v st m,
+    Inv st -> Inv (tp_state Name Body CMap (TPG scrub v st m)).
   Proof.
-    intros Hn Hr v st m HI. unfold try_pack_gen.
+    intros Hn Hr scrub v st m HI. unfold try_pack_gen.
     destruct (preflight _ _ _ _ _); try exact HI.
     destruct HI as (Hl & _).
-    match goal with |- context [PInto v st m opt ?cm ?c] =>
-      pose proof (pack_into_len Hn Hr v st m opt cm c) as Hlen; destruct (PInto v st m opt cm c) as [[ok w] m1] end.
+    match goal with |- context [PInto v ?st0 m opt ?cm ?c] =>
+      pose proof (pack_into_len Hn Hr v st0 m opt cm c) as Hlen; set (s0 := st0) in *;
+      destruct (PInto v s0 m opt cm c) as [[ok w] m1] end.
     cbn [fst snd] in Hlen.
-    assert (Inv (Rel (state_after Name Body CMap st w (m_compress Name Body m && msg_compressible Name Body m)))).
-    { apply release_inv. cbn. rewrite Hlen; [assumption|]. rewrite Hl. vm_compute. lia. }
+    assert (Hl0 : length (ps_buf Name Body CMap s0) = N.to_nat pack_buffer_size).
+    { subst s0. cbn [ps_buf]. destruct scrub; [rewrite zero_prefix_length|]; assumption. }
+    assert (Inv (Rel (state_after Name Body CMap s0 w (m_compress Name Body m && msg_compressible Name Body m)))).
+    { apply release_inv. cbn. rewrite Hlen; [assumption|]. rewrite Hl0. vm_compute. lia. }
     destruct ok; assumption.
   Qed.
 
   (* ---------------------------------------------------------------- *)
-  (** ** Lock-step simulation of the two packers *)
+  (** ** Lock-step simulation of the two packers, on a window of K octets *)
 
-  Lemma sim_question : in_place_name -> prefix_determined_name ->
-    forall q pout lout off cm c poff' pout' pcm' loff' lout' lcm',
-    agree off pout lout ->
+  Lemma sim_question : in_place_name -> frame_name ->
+    forall K q pout lout off cm c poff' pout' pcm' loff' lout' lcm',
+    agree K pout lout ->
     PQ q pout off cm c = Some (poff', pout', pcm') ->
     LQ q lout off cm c = Some (loff', lout', lcm') ->
-    poff' = loff' /\ pcm' = lcm' /\ agree poff' pout' lout' /\ length lout' = length lout.
+    poff' = loff' /\ pcm' = lcm' /\ agree K pout' lout' /\ length lout' = length lout /\ loff' <= length lout'.
   Proof.
-    intros Hn Hd q pout lout off cm c poff' pout' pcm' loff' lout' lcm' Ha HP HL.
+    intros Hn Hd K q pout lout off cm c poff' pout' pcm' loff' lout' lcm' Ha HP HL.
     unfold pooled_question in HP. unfold lib_question in HL.
     destruct (pack_name (q_name Name q) pout off cm c) as [[[o1 b1] cm1]|] eqn:E1; [|discriminate].
     destruct (pack_name (q_name Name q) lout off cm c) as [[[o2 b2] cm2]|] eqn:E2; [|discriminate].
-    destruct (Hd _ _ _ _ _ _ _ _ _ _ _ _ Ha E1 E2) as (-> & -> & Hag).
+    destruct (Hd K _ _ _ _ _ _ _ _ _ _ _ _ Ha E1 E2) as (-> & -> & Hag).
     pose proof (Hn _ _ _ _ _ _ _ _ E1) as Hl1. pose proof (Hn _ _ _ _ _ _ _ _ E2) as Hl2.
     change (N.to_nat question_fixed_len) with 4 in HP.
     destruct (Nat.ltb_spec (length pout) (o2 + 4)); [discriminate|]. inversion HP; subst; clear HP.
@@ -217,74 +249,85 @@ Section PackProofs.
     destruct (Nat.ltb_spec (length b2) (o2 + 2)); [discriminate|].
     rewrite put16_length in HL by lia.
     destruct (Nat.ltb_spec (length b2) (o2 + 2 + 2)); [discriminate|]. inversion HL; subst; clear HL.
-    split; [lia|]. split; [reflexivity|]. split.
-    - replace (o2 + 4) with (o2 + 2 + 2) by lia.
-      apply agree_put16; rewrite ?put16_length; try lia. apply agree_put16; try lia. assumption.
-    - rewrite !put16_length; rewrite ?put16_length; lia.
+    split; [lia|]. split; [reflexivity|]. split; [repeat apply agree_put16_any; assumption|].
+    rewrite put16_pair_length by lia. split; lia.
   Qed.
 
-  Lemma sim_questions : in_place_name -> prefix_determined_name ->
-    forall qs pout lout off cm c poff' pout' pcm' loff' lout' lcm',
-    agree off pout lout ->
+  Lemma sim_questions : in_place_name -> frame_name ->
+    forall K qs pout lout off cm c poff' pout' pcm' loff' lout' lcm',
+    agree K pout lout -> off <= length lout ->
     PQs qs pout off cm c = Some (poff', pout', pcm') ->
     LQs qs lout off cm c = Some (loff', lout', lcm') ->
-    poff' = loff' /\ pcm' = lcm' /\ agree poff' pout' lout' /\ length lout' = length lout.
+    poff' = loff' /\ pcm' = lcm' /\ agree K pout' lout' /\ length lout' = length lout /\ loff' <= length lout'.
   Proof.
-    intros Hn Hd. induction qs as [|q r IH]; intros pout lout off cm c poff' pout' pcm' loff' lout' lcm' Ha HP HL.
+    intros Hn Hd K. induction qs as [|q r IH]; intros pout lout off cm c poff' pout' pcm' loff' lout' lcm' Ha Hb HP HL.
     - cbn in HP, HL. inversion HP; inversion HL; subst. auto.
     - cbn [pooled_questions lib_questions] in HP, HL.
       destruct (PQ q pout off cm c) as [[[o1 b1] cm1]|] eqn:E1; [|discriminate].
       destruct (LQ q lout off cm c) as [[[o2 b2] cm2]|] eqn:E2; [|discriminate].
-      destruct (sim_question Hn Hd _ _ _ _ _ _ _ _ _ _ _ _ Ha E1 E2) as (-> & -> & Hag & Hl).
-      destruct (IH _ _ _ _ _ _ _ _ _ _ _ Hag HP HL) as (? & ? & ? & Hl'). repeat split; auto. lia.
+      destruct (sim_question Hn Hd K _ _ _ _ _ _ _ _ _ _ _ _ Ha E1 E2) as (-> & -> & Hag & Hl & Hb2).
+      destruct (IH _ _ _ _ _ _ _ _ _ _ _ Hag Hb2 HP HL) as (? & ? & ? & Hl' & ?). repeat split; auto. lia.
   Qed.
-
-  (* the header each packer gives a record *)
-  Definition eff_hdr (opt : option N) (rcode : Z) (s : slotT) : rrhdr Name :=
-    if is_selected opt (s_sh Name Body s)
-    then set_ttl Name (s_hdr Name Body s) (ext_ttl (rh_ttl Name (s_hdr Name Body s)) rcode)
-    else s_hdr Name Body s.
 
   Definition lib_rewrite (opt : option N) (rcode : Z) : list slotT -> list slotT :=
     upd_where Name Body (fun s => is_selected opt (s_sh Name Body s))
               (fun s => slot_set_ttl Name Body (lib_ext_ttl (sh_ttl (s_sh Name Body s)) rcode) s).
 
-  Lemma sim_records : prefix_determined_rr ->
-    forall v opt rcode c ss w m w' m' lout lout' loff' lcm',
+  (* both packers hand the record packer the same header and the same rdata *)
+  Lemma rewritten_hdr : forall opt rcode s,
+    s_hdr Name Body (if is_selected opt (s_sh Name Body s)
+                     then slot_set_ttl Name Body (lib_ext_ttl (sh_ttl (s_sh Name Body s)) rcode) s else s)
+    = (if is_selected opt (s_sh Name Body s)
+       then set_ttl Name (s_hdr Name Body s) (ext_ttl (rh_ttl Name (s_hdr Name Body s)) rcode)
+       else s_hdr Name Body s).
+  Proof.
+    intros. destruct (is_selected opt (s_sh Name Body s)); [|reflexivity].
+    unfold s_hdr, slot_set_ttl, set_ttl. cbn. rewrite ext_rcode_eq_lib_all_l. reflexivity.
+  Qed.
+  Lemma rewritten_body : forall opt rcode s,
+    s_body Name Body (if is_selected opt (s_sh Name Body s)
+                      then slot_set_ttl Name Body (lib_ext_ttl (sh_ttl (s_sh Name Body s)) rcode) s else s)
+    = s_body Name Body s.
+  Proof. intros. destruct (is_selected opt (s_sh Name Body s)); reflexivity. Qed.
+  Lemma rewritten_nil : forall opt rcode s,
+    sh_is_nil (s_sh Name Body (if is_selected opt (s_sh Name Body s)
+                      then slot_set_ttl Name Body (lib_ext_ttl (sh_ttl (s_sh Name Body s)) rcode) s else s))
+    = sh_is_nil (s_sh Name Body s).
+  Proof. intros. destruct (is_selected opt (s_sh Name Body s)); reflexivity. Qed.
+  Lemma rewritten_tnil : forall opt rcode s,
+    sh_typed_nil (s_sh Name Body (if is_selected opt (s_sh Name Body s)
+                      then slot_set_ttl Name Body (lib_ext_ttl (sh_ttl (s_sh Name Body s)) rcode) s else s))
+    = sh_typed_nil (s_sh Name Body s).
+  Proof. intros. destruct (is_selected opt (s_sh Name Body s)); reflexivity. Qed.
+
+  Lemma lib_rewrite_cons : forall opt rcode s rest,
+    lib_rewrite opt rcode (s :: rest) =
+    (if is_selected opt (s_sh Name Body s)
+     then slot_set_ttl Name Body (lib_ext_ttl (sh_ttl (s_sh Name Body s)) rcode) s else s) :: lib_rewrite opt rcode rest.
+  Proof. reflexivity. Qed.
+
+  Lemma sim_records : in_place_rr -> frame_rr -> in_bounds_rr ->
+    forall K v opt rcode c ss w m w' m' lout lout' loff' lcm',
     PRec v opt rcode c ss w m = (true, w', m') ->
-    agree (pw_off Name Body CMap w) (pw_out Name Body CMap w) lout ->
+    agree K (pw_out Name Body CMap w) lout -> pw_off Name Body CMap w <= length lout ->
     LRec c (lib_rewrite opt rcode ss) lout (pw_off Name Body CMap w) (pw_cm Name Body CMap w) = FOk CMap lout' loff' lcm' ->
     loff' = pw_off Name Body CMap w' /\ lcm' = pw_cm Name Body CMap w' /\
-    agree loff' (pw_out Name Body CMap w') lout'.
+    agree K (pw_out Name Body CMap w') lout' /\ length lout' = length lout /\ loff' <= length lout'.
   Proof.
-    intros Hd v opt rcode c. induction ss as [|s rest IH]; intros w m w' m' lout lout' loff' lcm' HP Ha HL.
+    intros Hr Hd Hib K v opt rcode c. induction ss as [|s rest IH]; intros w m w' m' lout lout' loff' lcm' HP Ha Hb HL.
     - cbn in HP, HL. inversion HP; inversion HL; subst. auto.
-    - cbn [pooled_records] in HP. unfold lib_rewrite, upd_where in HL. cbn [map lib_records] in HL.
-      fold (upd_where Name Body (fun s => is_selected opt (s_sh Name Body s))
-              (fun s => slot_set_ttl Name Body (lib_ext_ttl (sh_ttl (s_sh Name Body s)) rcode) s) rest) in HL.
-      fold (lib_rewrite opt rcode rest) in HL.
+    - cbn [pooled_records] in HP. rewrite lib_rewrite_cons in HL. cbn [lib_records] in HL.
       destruct (length (pw_out Name Body CMap w) <=? pw_off Name Body CMap w); [discriminate|].
-      (* both look at the same header and the same rdata *)
-      assert (Hh : s_hdr Name Body (if is_selected opt (s_sh Name Body s)
-                                    then slot_set_ttl Name Body (lib_ext_ttl (sh_ttl (s_sh Name Body s)) rcode) s else s)
-                   = (if is_selected opt (s_sh Name Body s)
-                      then set_ttl Name (s_hdr Name Body s) (ext_ttl (rh_ttl Name (s_hdr Name Body s)) rcode)
-                      else s_hdr Name Body s)).
-      { destruct (is_selected opt (s_sh Name Body s)); [|reflexivity].
-        unfold s_hdr, slot_set_ttl, set_ttl. cbn. rewrite ext_rcode_eq_lib_all_l. reflexivity. }
-      assert (Hb : s_body Name Body (if is_selected opt (s_sh Name Body s)
-                                     then slot_set_ttl Name Body (lib_ext_ttl (sh_ttl (s_sh Name Body s)) rcode) s else s)
-                   = s_body Name Body s).
-      { destruct (is_selected opt (s_sh Name Body s)); reflexivity. }
-      destruct (sh_is_nil (s_sh Name Body (if is_selected opt (s_sh Name Body s) then _ else s))); [discriminate|].
-      destruct (sh_typed_nil (s_sh Name Body (if is_selected opt (s_sh Name Body s) then _ else s))); [discriminate|].
-      rewrite Hh, Hb in HL.
+      rewrite rewritten_nil, rewritten_tnil, rewritten_hdr, rewritten_body in HL.
+      destruct (sh_is_nil (s_sh Name Body s)); [discriminate|].
+      destruct (sh_typed_nil (s_sh Name Body s)); [discriminate|].
       destruct (pack_rr _ (s_body Name Body s) (pw_out Name Body CMap w) _ _ _) as [[[[he1 o1] b1] cm1]|] eqn:E1; [|discriminate].
       destruct (pack_rr _ (s_body Name Body s) lout _ _ _) as [[[[he2 o2] b2] cm2]|] eqn:E2; [|discriminate].
-      destruct (Hd _ _ _ _ _ _ _ _ _ _ _ _ _ _ _ Ha E1 E2) as (-> & -> & Hag).
+      destruct (Hd K _ _ _ _ _ _ _ _ _ _ _ _ _ _ _ Ha E1 E2) as (-> & -> & Hag).
+      pose proof (Hr _ _ _ _ _ _ _ _ _ _ E2) as Hl2. pose proof (Hib _ _ _ _ _ _ _ _ _ _ E2) as Hb2.
       destruct (v s); cbn zeta beta iota in HP;
         (destruct ((o2 <=? _) || _); [discriminate|];
-         eapply IH; [exact HP| exact Hag | exact HL]).
+         destruct (IH _ _ _ _ _ _ _ _ HP Hag Hb2 HL) as (? & ? & ? & Hl' & ?); repeat split; auto; lia).
   Qed.
 
   Lemma pooled_records_app : forall v opt rcode c l1 l2 w m,
@@ -300,10 +343,6 @@ Section PackProofs.
       destruct (v s); cbn zeta beta iota; (destruct ((o1 <=? _) || _); [reflexivity|apply IH]).
   Qed.
 
-  Lemma pooled_records_false_ok : forall v opt rcode c ss w m w' m',
-    PRec v opt rcode c ss w m = (false, w', m') -> True.
-  Proof. trivial. Qed.
-
   Lemma upd_where_length : forall p f (l : list slotT), length (upd_where Name Body p f l) = length l.
   Proof. intros. unfold upd_where. apply map_length. Qed.
 
@@ -313,22 +352,51 @@ Section PackProofs.
     rewrite !map_id. destruct m; reflexivity.
   Qed.
 
-  (* the pooled pack of [m] against the library's pack of [m] with the OPT rewritten *)
-  Lemma sim_body : in_place_name -> in_place_rr -> prefix_determined_name -> prefix_determined_rr ->
+  Notation qsum := (sum_len (fun q : question Name => q_len (q_name Name q))).
+  Notation rsum := (sum_len (slot_len Name Body rr_len)).
+
+  Lemma rsum_app : forall l1 l2, rsum (l1 ++ l2) = rsum l1 + rsum l2.
+  Proof. induction l1 as [|x r IH]; intros l2; cbn; [reflexivity|]. unfold sum_len in *. rewrite IH. lia. Qed.
+
+  Lemma rsum_rewrite : forall opt rcode l, rsum (lib_rewrite opt rcode l) = rsum l.
+  Proof.
+    intros opt rcode. induction l as [|s r IH]; [reflexivity|].
+    rewrite lib_rewrite_cons. cbn [sum_len fold_right]. unfold sum_len in *. rewrite IH. f_equal.
+    destruct (is_selected opt (s_sh Name Body s)); reflexivity.
+  Qed.
+
+  Lemma msg_len_set_ext : forall opt rcode (m : msgT),
+    msg_len Name Body q_len rr_len (lib_set_ext Name Body opt rcode m) = msg_len Name Body q_len rr_len m.
+  Proof.
+    intros. unfold msg_len, m_records, lib_set_ext, msg_upd. cbn.
+    fold (lib_rewrite opt rcode (m_answer Name Body m)) (lib_rewrite opt rcode (m_ns Name Body m))
+         (lib_rewrite opt rcode (m_extra Name Body m)).
+    rewrite !rsum_app, !rsum_rewrite. reflexivity.
+  Qed.
+
+  (* the pooled pack of [m] against the library's pack of [m] with the OPT rewritten, when
+     the pooled buffer and the library's fresh array agree on the first K octets *)
+  Lemma sim_body : in_place_name -> in_place_rr -> frame_name -> frame_rr -> in_bounds_rr ->
     forall v st m opt cm c w m1 bytes' m',
     12 <= length (ps_buf Name Body CMap st) ->
+    agree (Nat.min (msg_len Name Body q_len rr_len m + 1) (length (ps_buf Name Body CMap st)))
+          (ps_buf Name Body CMap st) (repeat 0%N (msg_len Name Body q_len rr_len m + 1)) ->
     PInto v st m opt cm c = (true, w, m1) ->
     LFrom (lib_set_ext Name Body opt (h_rcode (m_hdr Name Body m)) m) c cm = (LOk bytes', m') ->
     bytes' = firstn (pw_off Name Body CMap w) (pw_out Name Body CMap w).
   Proof.
-    intros Hn Hr Hdn Hdr v st m opt cm c w m1 bytes' m' H12 HP HL.
+    intros Hn Hr Hdn Hdr Hib v st m opt cm c w m1 bytes' m' H12 Hag0 HP HL.
     unfold pack_into_gen in HP. unfold lib_pack_from in HL.
     set (mL := lib_set_ext Name Body opt (h_rcode (m_hdr Name Body m)) m) in *.
     destruct (has_typed_nil Name Body mL); [discriminate|].
-    set (lbuf := repeat 0%N (msg_len Name Body q_len rr_len mL + 1)) in *.
-    assert (HlL : 13 <= length lbuf).
-    { subst lbuf. rewrite repeat_length. unfold msg_len. lia. }
-    (* header *)
+    assert (Hml : msg_len Name Body q_len rr_len mL = msg_len Name Body q_len rr_len m) by apply msg_len_set_ext.
+    rewrite Hml in HL.
+    set (ulen := msg_len Name Body q_len rr_len m) in *.
+    set (lbuf := repeat 0%N (ulen + 1)) in *.
+    assert (HlL : length lbuf = ulen + 1) by (subst lbuf; apply repeat_length).
+    assert (Hu12 : 12 <= ulen) by (subst ulen; unfold msg_len; lia).
+    set (pb := ps_buf Name Body CMap st) in *.
+    set (K := Nat.min (ulen + 1) (length pb)) in *.
     assert (Hhdr : m_hdr Name Body mL = m_hdr Name Body m) by reflexivity.
     assert (Hq : m_question Name Body mL = m_question Name Body m) by reflexivity.
     assert (Han : m_answer Name Body mL = lib_rewrite opt (h_rcode (m_hdr Name Body m)) (m_answer Name Body m)) by reflexivity.
@@ -339,19 +407,20 @@ Section PackProofs.
     fold (@count16 slotT (m_answer Name Body m)) (@count16 slotT (m_ns Name Body m)) (@count16 slotT (m_extra Name Body m))
          (@count16 (question Name) (m_question Name Body m)) in HL.
     rewrite <- msg_bits_eq_lib_l in HL.
-    set (pb := ps_buf Name Body CMap st) in *.
     rewrite lib_header_ok in HL by lia.
     match type of HP with context [put16 (put16 (put16 (put16 (put16 (put16 ?b 0 ?a0) 2 ?a1) 4 ?a2) 6 ?a3) 8 ?a4) 10 ?a5] =>
       change (put16 (put16 (put16 (put16 (put16 (put16 b 0 a0) 2 a1) 4 a2) 6 a3) 8 a4) 10 a5) with (hdr6 b a0 a1 a2 a3 a4 a5) in HP;
       set (p6 := hdr6 b a0 a1 a2 a3 a4 a5) in HP;
       set (l6 := hdr6 lbuf a0 a1 a2 a3 a4 a5) in HL;
-      assert (Hag6 : agree 12 p6 l6) by (subst p6 l6; apply hdr6_agree; lia) end.
+      assert (Hag6 : agree K p6 l6) by (subst p6 l6; apply hdr6_agree_any; assumption);
+      assert (Hl6 : length l6 = length lbuf) by (subst l6; apply hdr6_length; lia);
+      assert (Hp6 : length p6 = length pb) by (subst p6; apply hdr6_length; lia)
+    end.
     change (N.to_nat header_len) with 12 in HP.
-    (* questions *)
     destruct (PQs (m_question Name Body m) p6 12 cm c) as [[[poff pout] pcm]|] eqn:EPQ; [|discriminate].
     destruct (LQs (m_question Name Body m) l6 12 cm c) as [[[loff lout] lcm]|] eqn:ELQ; [|discriminate].
-    destruct (sim_questions Hn Hdn _ _ _ _ _ _ _ _ _ _ _ _ Hag6 EPQ ELQ) as (-> & -> & Hagq & _).
-    (* records, section by section *)
+    destruct (sim_questions Hn Hdn K _ _ _ _ _ _ _ _ _ _ _ _ Hag6 ltac:(lia) EPQ ELQ) as (-> & -> & Hagq & Hlq & Hbq).
+    destruct (pooled_questions_len Hn _ _ _ _ _ _ _ _ EPQ) as [Hpl Hpb]. specialize (Hpb ltac:(lia)).
     unfold m_records in HP. rewrite pooled_records_app in HP.
     set (rc := h_rcode (m_hdr Name Body m)) in *.
     destruct (PRec v opt rc c (m_answer Name Body m) _ m) as [[ok1 w1] mm1] eqn:EP1.
@@ -360,12 +429,22 @@ Section PackProofs.
     destruct (PRec v opt rc c (m_ns Name Body m) w1 mm1) as [[ok2 w2] mm2] eqn:EP2.
     destruct ok2; [|discriminate].
     destruct (LRec c (lib_rewrite opt rc (m_answer Name Body m)) lout loff lcm) as [lo1 lf1 lc1| |] eqn:EL1; try discriminate.
-    destruct (sim_records Hdr _ _ _ _ _ _ _ _ _ _ _ _ _ EP1 Hagq EL1) as (-> & -> & Hag1).
+    destruct (sim_records Hr Hdr Hib K _ _ _ _ _ _ _ _ _ _ _ _ _ EP1 Hagq Hbq EL1) as (-> & -> & Hag1 & Hl1 & Hb1).
     destruct (LRec c (lib_rewrite opt rc (m_ns Name Body m)) lo1 _ _) as [lo2 lf2 lc2| |] eqn:EL2; try discriminate.
-    destruct (sim_records Hdr _ _ _ _ _ _ _ _ _ _ _ _ _ EP2 Hag1 EL2) as (-> & -> & Hag2).
+    destruct (sim_records Hr Hdr Hib K _ _ _ _ _ _ _ _ _ _ _ _ _ EP2 Hag1 Hb1 EL2) as (-> & -> & Hag2 & Hl2 & Hb2).
     destruct (LRec c (lib_rewrite opt rc (m_extra Name Body m)) lo2 _ _) as [lo3 lf3 lc3| |] eqn:EL3; try discriminate.
-    destruct (sim_records Hdr _ _ _ _ _ _ _ _ _ _ _ _ _ HP Hag2 EL3) as (-> & -> & Hag3).
-    inversion HL; subst. symmetry. exact Hag3.
+    destruct (sim_records Hr Hdr Hib K _ _ _ _ _ _ _ _ _ _ _ _ _ HP Hag2 Hb2 EL3) as (-> & -> & Hag3 & Hl3 & Hb3).
+    (* the final offset lies inside both buffers, hence inside the window *)
+    pose proof (pooled_records_bound Hr _ _ _ _ _ _ _ _ _ EP1 ltac:(cbn; lia)) as B1.
+    pose proof (pooled_records_bound Hr _ _ _ _ _ _ _ _ _ EP2 B1) as B2.
+    pose proof (pooled_records_bound Hr _ _ _ _ _ _ _ _ _ HP B2) as B3.
+    pose proof (pooled_records_len Hr v opt rc c (m_answer Name Body m)
+                  (mk_pwork Name Body CMap pout loff lcm (ps_shim_rr Name Body CMap st) (ps_shim_hdr Name Body CMap st) (ps_opt Name Body CMap st)) m) as L1.
+    rewrite EP1 in L1. cbn in L1.
+    pose proof (pooled_records_len Hr v opt rc c (m_ns Name Body m) w1 mm1) as L2. rewrite EP2 in L2. cbn in L2.
+    pose proof (pooled_records_len Hr v opt rc c (m_extra Name Body m) w2 mm2) as L3. rewrite HP in L3. cbn in L3.
+    inversion HL; subst bytes'. symmetry.
+    apply (agree_le K); [exact Hag3|]. subst K. lia.
   Qed.
 
   (* ---------------------------------------------------------------- *)
@@ -378,13 +457,23 @@ Section PackProofs.
     destruct (nth_error l i) as [o|]; [|discriminate]. inversion H. eauto.
   Qed.
 
+  (* the scrubbed pooled buffer agrees with the library's fresh array on the window *)
+  Lemma scrubbed_agrees : forall (st : pstateT) (m : msgT),
+    length (ps_buf Name Body CMap st) = N.to_nat pack_buffer_size ->
+    agree (Nat.min (msg_len Name Body q_len rr_len m + 1) (length (zero_prefix (Klen m) (ps_buf Name Body CMap st))))
+          (zero_prefix (Klen m) (ps_buf Name Body CMap st)) (repeat 0%N (msg_len Name Body q_len rr_len m + 1)).
+  Proof.
+    intros st m Hl. rewrite zero_prefix_length. unfold scrub_len. rewrite Hl.
+    apply zero_prefix_agree_fresh; lia.
+  Qed.
+
   Theorem trypack_eq_libpack_l :
-    in_place_name -> in_place_rr -> prefix_determined_name -> prefix_determined_rr ->
+    in_place_name -> in_place_rr -> frame_name -> frame_rr -> in_bounds_rr ->
     forall st m bytes, Inv st ->
     tp_bytes Name Body CMap (TP st m) = Some bytes ->
     forall bytes' m', LP m = (LOk bytes', m') -> bytes = bytes'.
   Proof.
-    intros Hn Hr Hdn Hdr st m bytes HI HT bytes' m' HL.
+    intros Hn Hr Hdn Hdr Hib st m bytes HI HT bytes' m' HL.
     unfold try_pack, try_pack_gen in HT.
     destruct (preflight _ _ _ _ _) as [| | | | |opt] eqn:Epf; try discriminate.
     apply preflight_proceed in Epf. destruct Epf as (Hrc & Hadm & Hsz & Hsel).
@@ -394,74 +483,347 @@ Section PackProofs.
                    = (if c then Some cm_empty else None)).
     { destruct c; [|reflexivity]. destruct Hcm as [->| ->]; reflexivity. }
     rewrite Hcmv in HT.
-    destruct (PInto view_shim st m opt _ c) as [[ok w] m1] eqn:EP.
+    set (st0 := mk_pstate Name Body CMap (zero_prefix (Klen m) (ps_buf Name Body CMap st)) _ _ _ _) in HT.
+    destruct (PInto view_shim st0 m opt _ c) as [[ok w] m1] eqn:EP.
     destruct ok; [|discriminate]. cbn in HT. inversion HT; subst bytes; clear HT.
     unfold sl_bytes. cbn.
-    (* the library's side *)
     unfold lib_pack in HL.
     change rcode_min with 0%Z in Hrc. change rcode_max with 4095%Z in Hrc.
     replace ((h_rcode (m_hdr Name Body m) <? 0)%Z || (4095 <? h_rcode (m_hdr Name Body m))%Z) with false in HL
       by (symmetry; apply orb_false_iff; split; [apply Z.ltb_ge|apply Z.ltb_ge]; lia).
     rewrite <- select_opt_eq_lib_l in HL.
     change (lib_msg_compressible Name Body m) with (msg_compressible Name Body m) in HL. fold c in HL.
-    assert (H12 : 12 <= length (ps_buf Name Body CMap st)) by (rewrite Hlen; vm_compute; lia).
+    assert (H12 : 12 <= length (ps_buf Name Body CMap st0)).
+    { subst st0. cbn. rewrite zero_prefix_length, Hlen. vm_compute. lia. }
+    assert (Hag0 := scrubbed_agrees st m Hlen). change (zero_prefix (Klen m) (ps_buf Name Body CMap st)) with (ps_buf Name Body CMap st0) in Hag0.
     destruct (select_opt (shapes Name Body (m_extra Name Body m))) as [|i|] eqn:Es; [| |contradiction].
     - destruct Hsel as [-> Hp]. change rcode_plain_max with 15%Z in Hp.
       replace (15 <? h_rcode (m_hdr Name Body m))%Z with false in HL by (symmetry; apply Z.ltb_ge; lia).
       rewrite <- (lib_set_ext_none (h_rcode (m_hdr Name Body m)) m) in HL.
-      symmetry. eapply (sim_body Hn Hr Hdn Hdr); eassumption.
+      symmetry. eapply (sim_body Hn Hr Hdn Hdr Hib); eassumption.
     - destruct Hsel as (x & Hx & ->).
       apply nth_error_shapes in Hx. destruct Hx as (o & Ho & <-). rewrite Ho in HL.
-      symmetry. eapply (sim_body Hn Hr Hdn Hdr); eassumption.
+      symmetry. eapply (sim_body Hn Hr Hdn Hdr Hib); eassumption.
+  Qed.
+
+  (* ---------------------------------------------------------------- *)
+  (** ** ... and the library does pack what the pooled packer packed *)
+
+  Lemma admissible_not_nil : forall s, admissible_rr s = true -> sh_is_nil s = false /\ sh_typed_nil s = false.
+  Proof.
+    intros s H. unfold admissible_rr in H. unfold sh_typed_nil. unfold sh_is_nil in *.
+    destruct (d_nil (sh_dyn s)) eqn:En; [discriminate|]. split; [reflexivity|].
+    assert (Ho : library_owned (sh_dyn s) = true).
+    { destruct (sh_kind s); try discriminate; destruct (library_owned (sh_dyn s)); auto; discriminate. }
+    unfold library_owned in Ho. rewrite En in Ho.
+    destruct (d_ptr (sh_dyn s) && d_ptr_nil (sh_dyn s)) eqn:E; [discriminate|].
+    cbn. destruct (d_ptr (sh_dyn s)), (d_ptr_nil (sh_dyn s)); auto; discriminate.
+  Qed.
+
+  (* how far a successful pooled pack can have advanced: never past Len() *)
+  Lemma pooled_questions_adv : len_bounds_name -> forall qs out off cm c off1 out1 cm1,
+    PQs qs out off cm c = Some (off1, out1, cm1) -> off1 <= off + qsum qs.
+  Proof.
+    intros Hz. induction qs as [|q r IH]; intros out off cm c off1 out1 cm1 H; cbn in H.
+    - inversion H; subst. cbn. lia.
+    - unfold pooled_question in H.
+      destruct (pack_name (q_name Name q) out off cm c) as [[[o b'] cm']|] eqn:E; [|discriminate].
+      destruct (_ <? _); [discriminate|]. apply IH in H. pose proof (Hz _ _ _ _ _ _ _ _ E).
+      cbn [sum_len fold_right]. unfold sum_len in *. lia.
+  Qed.
+
+  Lemma pooled_records_adv : len_bounds_rr -> forall v opt rcode c ss w m w' m',
+    PRec v opt rcode c ss w m = (true, w', m') ->
+    forallb admissible_rr (shapes Name Body ss) = true ->
+    pw_off Name Body CMap w' <= pw_off Name Body CMap w + rsum ss.
+  Proof.
+    intros Hz v opt rcode c. induction ss as [|s rest IH]; intros w m w' m' HP Hadm.
+    - cbn in HP. inversion HP; subst. cbn. lia.
+    - cbn [pooled_records] in HP.
+      cbn [shapes map forallb] in Hadm. apply andb_true_iff in Hadm. destruct Hadm as [Hs Hadm].
+      destruct (admissible_not_nil _ Hs) as [Hnil _].
+      destruct (length (pw_out Name Body CMap w) <=? pw_off Name Body CMap w); [discriminate|].
+      set (h := if is_selected opt (s_sh Name Body s) then _ else _) in *.
+      assert (Hname : rh_name Name h = s_name Name Body s) by (subst h; destruct (is_selected opt (s_sh Name Body s)); reflexivity).
+      destruct (pack_rr h _ _ _ _ _) as [[[[he1 o1] b1] cm1]|] eqn:E1; [|discriminate].
+      pose proof (Hz _ _ _ _ _ _ _ _ _ _ E1) as Hb. rewrite Hname in Hb.
+      cbn [sum_len fold_right]. unfold slot_len at 1. rewrite Hnil.
+      destruct (v s); cbn zeta beta iota in HP;
+        (destruct ((o1 <=? _) || _); [discriminate|]; apply IH in HP; [|assumption]; cbn in HP; unfold sum_len in *; lia).
+  Qed.
+
+  Lemma ex_question : in_place_name -> frame_name -> len_bounds_name -> len_suffices_name ->
+    forall K q pout lout off cm c poff pout' pcm,
+    agree K pout lout ->
+    PQ q pout off cm c = Some (poff, pout', pcm) ->
+    off + q_len (q_name Name q) < length lout ->
+    exists lout', LQ q lout off cm c = Some (poff, lout', pcm) /\ agree K pout' lout' /\
+                  length lout' = length lout /\ poff <= off + q_len (q_name Name q).
+  Proof.
+    intros Hn Hd Hzb Hzs K q pout lout off cm c poff pout' pcm Ha HP Hroom.
+    unfold pooled_question in HP. unfold lib_question.
+    destruct (pack_name (q_name Name q) pout off cm c) as [[[o1 b1] cm1]|] eqn:E1; [|discriminate].
+    pose proof (Hzb _ _ _ _ _ _ _ _ E1) as Hb. pose proof (Hzs _ _ _ _ _ _ _ _ E1 lout Hroom) as Hfit.
+    destruct (pack_name (q_name Name q) lout off cm c) as [[[o2 b2] cm2]|] eqn:E2; [|congruence].
+    destruct (Hd K _ _ _ _ _ _ _ _ _ _ _ _ Ha E1 E2) as (-> & -> & Hag).
+    pose proof (Hn _ _ _ _ _ _ _ _ E1) as Hl1. pose proof (Hn _ _ _ _ _ _ _ _ E2) as Hl2.
+    change (N.to_nat question_fixed_len) with 4 in HP.
+    destruct (Nat.ltb_spec (length pout) (o2 + 4)); [discriminate|]. inversion HP; subst; clear HP.
+    unfold lib_pack_u16.
+    destruct (Nat.ltb_spec (length b2) (o2 + 2)); [lia|].
+    rewrite put16_length by lia.
+    destruct (Nat.ltb_spec (length b2) (o2 + 2 + 2)); [lia|].
+    exists (put16 (put16 b2 o2 (q_type Name q)) (o2 + 2) (q_class Name q)).
+    replace (o2 + 2 + 2) with (o2 + 4) by lia.
+    split; [reflexivity|]. split; [repeat apply agree_put16_any; assumption|].
+    split; [rewrite put16_pair_length by lia; lia|lia].
+  Qed.
+
+  Lemma ex_questions : in_place_name -> frame_name -> len_bounds_name -> len_suffices_name ->
+    forall K qs pout lout off cm c poff pout' pcm,
+    agree K pout lout ->
+    PQs qs pout off cm c = Some (poff, pout', pcm) ->
+    off + qsum qs < length lout ->
+    exists lout', LQs qs lout off cm c = Some (poff, lout', pcm) /\ agree K pout' lout' /\
+                  length lout' = length lout /\ poff <= off + qsum qs.
+  Proof.
+    intros Hn Hd Hzb Hzs K. induction qs as [|q r IH]; intros pout lout off cm c poff pout' pcm Ha HP Hroom.
+    - cbn in HP. inversion HP; subst. exists lout. cbn. repeat split; auto. lia.
+    - cbn [pooled_questions] in HP. cbn [sum_len fold_right] in Hroom.
+      destruct (PQ q pout off cm c) as [[[o1 b1] cm1]|] eqn:E1; [|discriminate].
+      destruct (ex_question Hn Hd Hzb Hzs K _ _ _ _ _ _ _ _ _ Ha E1 ltac:(unfold sum_len in *; lia)) as (l1 & EL & Hag & Hl & Hb).
+      assert (Hroom' : o1 + qsum r < length l1) by (unfold sum_len in *; lia).
+      destruct (IH _ _ _ _ _ _ _ _ Hag HP Hroom') as (l2 & EL2 & Hag2 & Hl2 & Hb2).
+      exists l2. cbn [lib_questions]. rewrite EL. split; [exact EL2|]. split; [assumption|].
+      split; [lia|]. cbn [sum_len fold_right]. unfold sum_len in *. lia.
+  Qed.
+
+  Lemma ex_records : in_place_rr -> frame_rr -> len_bounds_rr -> len_suffices_rr ->
+    forall K v opt rcode c ss w m w' m' lout,
+    PRec v opt rcode c ss w m = (true, w', m') ->
+    agree K (pw_out Name Body CMap w) lout ->
+    forallb admissible_rr (shapes Name Body ss) = true ->
+    pw_off Name Body CMap w + rsum ss < length lout ->
+    exists lout',
+      LRec c (lib_rewrite opt rcode ss) lout (pw_off Name Body CMap w) (pw_cm Name Body CMap w) =
+        FOk CMap lout' (pw_off Name Body CMap w') (pw_cm Name Body CMap w') /\
+      agree K (pw_out Name Body CMap w') lout' /\
+      length lout' = length lout /\ pw_off Name Body CMap w' <= pw_off Name Body CMap w + rsum ss.
+  Proof.
+    intros Hr Hd Hzb Hzs K v opt rcode c. induction ss as [|s rest IH]; intros w m w' m' lout HP Ha Hadm Hroom.
+    - cbn in HP. inversion HP; subst. exists lout. cbn. repeat split; auto. lia.
+    - cbn [pooled_records] in HP. rewrite lib_rewrite_cons. cbn [lib_records].
+      cbn [shapes map forallb] in Hadm. apply andb_true_iff in Hadm. destruct Hadm as [Hs Hadm].
+      destruct (admissible_not_nil _ Hs) as [Hnil Htn].
+      destruct (length (pw_out Name Body CMap w) <=? pw_off Name Body CMap w); [discriminate|].
+      rewrite rewritten_nil, rewritten_tnil, rewritten_hdr, rewritten_body, Hnil, Htn.
+      set (h := if is_selected opt (s_sh Name Body s) then _ else _) in *.
+      assert (Hname : rh_name Name h = s_name Name Body s) by (subst h; destruct (is_selected opt (s_sh Name Body s)); reflexivity).
+      cbn [sum_len fold_right] in Hroom. unfold slot_len in Hroom at 1. rewrite Hnil in Hroom.
+      destruct (pack_rr h (s_body Name Body s) (pw_out Name Body CMap w) _ _ _) as [[[[he1 o1] b1] cm1]|] eqn:E1; [|discriminate].
+      pose proof (Hzb _ _ _ _ _ _ _ _ _ _ E1) as Hbound. rewrite Hname in Hbound.
+      pose proof (Hzs _ _ _ _ _ _ _ _ _ _ E1 lout) as Hfit. rewrite Hname in Hfit.
+      specialize (Hfit ltac:(unfold sum_len in *; lia)).
+      destruct (pack_rr h (s_body Name Body s) lout _ _ _) as [[[[he2 o2] b2] cm2]|] eqn:E2; [|congruence].
+      destruct (Hd K _ _ _ _ _ _ _ _ _ _ _ _ _ _ _ Ha E1 E2) as (-> & -> & Hag).
+      pose proof (Hr _ _ _ _ _ _ _ _ _ _ E2) as Hl2.
+      assert (Hstep : forall shim mm,
+                 PRec v opt rcode c rest (mk_pwork Name Body CMap b1 o2 cm2 None shim
+                                            (if is_selected opt (s_sh Name Body s) then Some (h, s_body Name Body s) else pw_opt Name Body CMap w)) mm
+                 = (true, w', m') ->
+                 exists lout', LRec c (lib_rewrite opt rcode rest) b2 o2 cm2 =
+                                 FOk CMap lout' (pw_off Name Body CMap w') (pw_cm Name Body CMap w') /\
+                               agree K (pw_out Name Body CMap w') lout' /\
+                               length lout' = length lout /\
+                               pw_off Name Body CMap w' <= pw_off Name Body CMap w + (rr_len (s_name Name Body s) (s_body Name Body s) + rsum rest)).
+      { intros shim mm HP'.
+        assert (Hroom' : o2 + rsum rest < length b2) by (unfold sum_len in *; lia).
+        destruct (IH _ _ _ _ b2 HP' Hag Hadm Hroom') as (l' & EL & Hag' & Hl' & Hb').
+        exists l'. cbn [pw_off pw_cm] in EL, Hb'. split; [exact EL|]. split; [exact Hag'|].
+        split; [lia|]. unfold sum_len in *. lia. }
+      cbn [sum_len fold_right]. unfold slot_len at 1. rewrite Hnil.
+      destruct (v s); cbn zeta beta iota in HP;
+        (destruct ((o2 <=? _) || _); [discriminate|]; eapply Hstep; exact HP).
+  Qed.
+
+  Lemma typed_nil_rewrite : forall opt rcode l,
+    forallb admissible_rr (shapes Name Body l) = true ->
+    existsb (fun s => sh_typed_nil (s_sh Name Body s)) (lib_rewrite opt rcode l) = false.
+  Proof.
+    intros opt rcode. induction l as [|s r IH]; intros H; [reflexivity|].
+    cbn [shapes map forallb] in H. apply andb_true_iff in H. destruct H as [Hs H].
+    rewrite lib_rewrite_cons. cbn [existsb]. rewrite (IH H), orb_false_r, rewritten_tnil.
+    destruct (admissible_not_nil _ Hs) as [_ Ht]. exact Ht.
+  Qed.
+
+  Lemma forallb_shapes_app : forall (a b c : list slotT),
+    forallb admissible_rr (shapes Name Body a ++ shapes Name Body b ++ shapes Name Body c) = true ->
+    forallb admissible_rr (shapes Name Body a) = true /\ forallb admissible_rr (shapes Name Body b) = true /\
+    forallb admissible_rr (shapes Name Body c) = true.
+  Proof.
+    intros a b c H. rewrite !forallb_app in H. apply andb_true_iff in H. destruct H as [Ha H].
+    apply andb_true_iff in H. destruct H. auto.
+  Qed.
+
+  Lemma ex_body : in_place_name -> in_place_rr -> frame_name -> frame_rr ->
+    len_bounds_name -> len_bounds_rr -> len_suffices_name -> len_suffices_rr ->
+    forall v st m opt cm c w m1,
+    12 <= length (ps_buf Name Body CMap st) ->
+    msg_len Name Body q_len rr_len m <= length (ps_buf Name Body CMap st) ->
+    agree (Nat.min (msg_len Name Body q_len rr_len m + 1) (length (ps_buf Name Body CMap st)))
+          (ps_buf Name Body CMap st) (repeat 0%N (msg_len Name Body q_len rr_len m + 1)) ->
+    forallb admissible_rr (shapes Name Body (m_answer Name Body m) ++ shapes Name Body (m_ns Name Body m) ++
+                           shapes Name Body (m_extra Name Body m)) = true ->
+    PInto v st m opt cm c = (true, w, m1) ->
+    exists m',
+      LFrom (lib_set_ext Name Body opt (h_rcode (m_hdr Name Body m)) m) c cm =
+        (LOk (firstn (pw_off Name Body CMap w) (pw_out Name Body CMap w)), m').
+  Proof.
+    intros Hn Hr Hdn Hdr Hbn Hbr Hsn Hsr v st m opt cm c w m1 H12 Hfitbuf Hag0 Hadm HP.
+    destruct (forallb_shapes_app _ _ _ Hadm) as (Ha1 & Ha2 & Ha3).
+    unfold pack_into_gen in HP. unfold lib_pack_from.
+    set (rc := h_rcode (m_hdr Name Body m)) in *.
+    set (mL := lib_set_ext Name Body opt rc m).
+    assert (Hhdr : m_hdr Name Body mL = m_hdr Name Body m) by reflexivity.
+    assert (Hq : m_question Name Body mL = m_question Name Body m) by reflexivity.
+    assert (Han : m_answer Name Body mL = lib_rewrite opt rc (m_answer Name Body m)) by reflexivity.
+    assert (Hns : m_ns Name Body mL = lib_rewrite opt rc (m_ns Name Body m)) by reflexivity.
+    assert (Hex : m_extra Name Body mL = lib_rewrite opt rc (m_extra Name Body m)) by reflexivity.
+    assert (Htn : has_typed_nil Name Body mL = false).
+    { unfold has_typed_nil, m_records. rewrite Han, Hns, Hex. rewrite !existsb_app.
+      rewrite !typed_nil_rewrite by assumption. reflexivity. }
+    rewrite Htn.
+    assert (Hml : msg_len Name Body q_len rr_len mL = msg_len Name Body q_len rr_len m) by apply msg_len_set_ext.
+    rewrite Hml.
+    assert (Hlen : msg_len Name Body q_len rr_len m =
+                   12 + qsum (m_question Name Body m) + (rsum (m_answer Name Body m) + (rsum (m_ns Name Body m) + rsum (m_extra Name Body m)))).
+    { unfold msg_len, m_records. rewrite !rsum_app. reflexivity. }
+    set (ulen := msg_len Name Body q_len rr_len m) in *.
+    set (lbuf := repeat 0%N (ulen + 1)) in *.
+    assert (HlL : length lbuf = ulen + 1) by (subst lbuf; apply repeat_length).
+    set (pb := ps_buf Name Body CMap st) in *.
+    set (K := Nat.min (ulen + 1) (length pb)) in *.
+    rewrite Hhdr, Hq, Han, Hns, Hex.
+    unfold count16. unfold lib_rewrite at 1 2 3. rewrite !upd_where_length.
+    fold (@count16 slotT (m_answer Name Body m)) (@count16 slotT (m_ns Name Body m)) (@count16 slotT (m_extra Name Body m))
+         (@count16 (question Name) (m_question Name Body m)).
+    rewrite <- msg_bits_eq_lib_l.
+    rewrite lib_header_ok by lia.
+    match type of HP with context [put16 (put16 (put16 (put16 (put16 (put16 ?b 0 ?a0) 2 ?a1) 4 ?a2) 6 ?a3) 8 ?a4) 10 ?a5] =>
+      change (put16 (put16 (put16 (put16 (put16 (put16 b 0 a0) 2 a1) 4 a2) 6 a3) 8 a4) 10 a5) with (hdr6 b a0 a1 a2 a3 a4 a5) in HP;
+      set (p6 := hdr6 b a0 a1 a2 a3 a4 a5) in HP;
+      set (l6 := hdr6 lbuf a0 a1 a2 a3 a4 a5);
+      assert (Hag6 : agree K p6 l6) by (subst p6 l6; apply hdr6_agree_any; assumption);
+      assert (Hl6 : length l6 = length lbuf) by (subst l6; apply hdr6_length; lia)
+    end.
+    change (N.to_nat header_len) with 12 in HP.
+    destruct (PQs (m_question Name Body m) p6 12 cm c) as [[[poff pout] pcm]|] eqn:EPQ; [|discriminate].
+    destruct (ex_questions Hn Hdn Hbn Hsn K _ _ _ _ _ _ _ _ _ Hag6 EPQ ltac:(lia)) as (lq & ELQ & Hagq & Hlq & Hbq).
+    rewrite ELQ.
+    unfold m_records in HP. rewrite pooled_records_app in HP.
+    destruct (PRec v opt rc c (m_answer Name Body m) _ m) as [[ok1 w1] mm1] eqn:EP1.
+    destruct ok1; [|discriminate].
+    rewrite pooled_records_app in HP.
+    destruct (PRec v opt rc c (m_ns Name Body m) w1 mm1) as [[ok2 w2] mm2] eqn:EP2.
+    destruct ok2; [|discriminate].
+    destruct (ex_records Hr Hdr Hbr Hsr K _ _ _ _ _ _ _ _ _ lq EP1 Hagq Ha1 ltac:(cbn; lia)) as (l1 & EL1 & Hag1 & Hl1 & Hb1).
+    cbn [pw_off pw_cm] in EL1, Hb1. rewrite EL1.
+    destruct (ex_records Hr Hdr Hbr Hsr K _ _ _ _ _ _ _ _ _ l1 EP2 Hag1 Ha2 ltac:(lia)) as (l2 & EL2 & Hag2 & Hl2 & Hb2).
+    rewrite EL2.
+    destruct (ex_records Hr Hdr Hbr Hsr K _ _ _ _ _ _ _ _ _ l2 HP Hag2 Ha3 ltac:(lia)) as (l3 & EL3 & Hag3 & Hl3 & Hb3).
+    rewrite EL3. eexists. f_equal. f_equal. symmetry.
+    apply (agree_le K); [exact Hag3|]. subst K. lia.
+  Qed.
+
+  Theorem trypack_then_library_packs_l :
+    in_place_name -> in_place_rr -> frame_name -> frame_rr ->
+    len_bounds_name -> len_bounds_rr -> len_suffices_name -> len_suffices_rr ->
+    forall st m bytes, Inv st ->
+    tp_bytes Name Body CMap (TP st m) = Some bytes ->
+    exists m', LP m = (LOk bytes, m').
+  Proof.
+    intros Hn Hr Hdn Hdr Hbn Hbr Hsn Hsr st m bytes HI HT.
+    unfold try_pack, try_pack_gen in HT.
+    destruct (preflight _ _ _ _ _) as [| | | | |opt] eqn:Epf; try discriminate.
+    apply preflight_proceed in Epf. destruct Epf as (Hrc & Hadm & Hsz & Hsel).
+    destruct HI as (Hlen & Hcm & _).
+    set (c := m_compress Name Body m && msg_compressible Name Body m) in *.
+    assert (Hcmv : (if c then Some match ps_cmap Name Body CMap st with None => cm_empty | Some x => x end else None)
+                   = (if c then Some cm_empty else None)).
+    { destruct c; [|reflexivity]. destruct Hcm as [->| ->]; reflexivity. }
+    rewrite Hcmv in HT.
+    set (st0 := mk_pstate Name Body CMap (zero_prefix (Klen m) (ps_buf Name Body CMap st)) _ _ _ _) in HT.
+    destruct (PInto view_shim st0 m opt _ c) as [[ok w] m1] eqn:EP.
+    destruct ok; [|discriminate]. cbn in HT. inversion HT; subst bytes; clear HT.
+    unfold sl_bytes. cbn.
+    unfold lib_pack.
+    change rcode_min with 0%Z in Hrc. change rcode_max with 4095%Z in Hrc.
+    replace ((h_rcode (m_hdr Name Body m) <? 0)%Z || (4095 <? h_rcode (m_hdr Name Body m))%Z) with false
+      by (symmetry; apply orb_false_iff; split; [apply Z.ltb_ge|apply Z.ltb_ge]; lia).
+    rewrite <- select_opt_eq_lib_l.
+    change (lib_msg_compressible Name Body m) with (msg_compressible Name Body m). fold c.
+    assert (Hl0 : length (ps_buf Name Body CMap st0) = N.to_nat pack_buffer_size).
+    { subst st0. cbn. rewrite zero_prefix_length. exact Hlen. }
+    assert (H12 : 12 <= length (ps_buf Name Body CMap st0)) by (rewrite Hl0; vm_compute; lia).
+    assert (Hfit : msg_len Name Body q_len rr_len m <= length (ps_buf Name Body CMap st0)) by (rewrite Hl0; lia).
+    assert (Hag0 := scrubbed_agrees st m Hlen). change (zero_prefix (Klen m) (ps_buf Name Body CMap st)) with (ps_buf Name Body CMap st0) in Hag0.
+    destruct (select_opt (shapes Name Body (m_extra Name Body m))) as [|i|] eqn:Es; [| |contradiction].
+    - destruct Hsel as [-> Hp]. change rcode_plain_max with 15%Z in Hp.
+      replace (15 <? h_rcode (m_hdr Name Body m))%Z with false by (symmetry; apply Z.ltb_ge; lia).
+      destruct (ex_body Hn Hr Hdn Hdr Hbn Hbr Hsn Hsr _ _ _ _ _ _ _ _ H12 Hfit Hag0 Hadm EP) as [m' Hm'].
+      rewrite lib_set_ext_none in Hm'. exists m'. exact Hm'.
+    - destruct Hsel as (x & Hx & ->).
+      apply nth_error_shapes in Hx. destruct Hx as (o & Ho & <-). rewrite Ho.
+      eapply (ex_body Hn Hr Hdn Hdr Hbn Hbr Hsn Hsr); eassumption.
   Qed.
 
   (* ---------------------------------------------------------------- *)
   (** ** Two pooled states that satisfy the release invariant are indistinguishable *)
 
-  Definition rel_q (r1 r2 : option (nat * buf * option CMap)) : Prop :=
+  Definition rel_q (K : nat) (r1 r2 : option (nat * buf * option CMap)) : Prop :=
     match r1, r2 with
-    | Some (o1, b1, c1), Some (o2, b2, c2) => o1 = o2 /\ c1 = c2 /\ agree o1 b1 b2 /\ length b1 = length b2
+    | Some (o1, b1, c1), Some (o2, b2, c2) => o1 = o2 /\ c1 = c2 /\ agree K b1 b2 /\ length b1 = length b2
     | None, None => True
     | _, _ => False
     end.
 
-  Lemma sim2_question : in_place_name -> prefix_determined_name -> same_success_name ->
-    forall q b1 b2 off cm c, agree off b1 b2 -> length b1 = length b2 ->
-    rel_q (PQ q b1 off cm c) (PQ q b2 off cm c).
+  Lemma sim2_question : in_place_name -> frame_name -> same_success_name ->
+    forall K q b1 b2 off cm c, agree K b1 b2 -> length b1 = length b2 ->
+    rel_q K (PQ q b1 off cm c) (PQ q b2 off cm c).
   Proof.
-    intros Hn Hd Hs q b1 b2 off cm c Ha Hl. unfold pooled_question.
-    pose proof (Hs (q_name Name q) b1 b2 off cm c Ha Hl) as Hiff.
+    intros Hn Hd Hs K q b1 b2 off cm c Ha Hl. unfold pooled_question.
+    pose proof (Hs (q_name Name q) b1 b2 off cm c Hl) as Hiff.
     destruct (pack_name (q_name Name q) b1 off cm c) as [[[o1 x1] c1]|] eqn:E1;
       destruct (pack_name (q_name Name q) b2 off cm c) as [[[o2 x2] c2]|] eqn:E2.
-    - destruct (Hd _ _ _ _ _ _ _ _ _ _ _ _ Ha E1 E2) as (-> & -> & Hag).
+    - destruct (Hd K _ _ _ _ _ _ _ _ _ _ _ _ Ha E1 E2) as (-> & -> & Hag).
       pose proof (Hn _ _ _ _ _ _ _ _ E1). pose proof (Hn _ _ _ _ _ _ _ _ E2).
       change (N.to_nat question_fixed_len) with 4. rewrite Hl.
       destruct (Nat.ltb_spec (length b2) (o2 + 4)); cbn; [trivial|].
       split; [reflexivity|]. split; [reflexivity|]. split.
-      + apply agree_put16_pair; try lia. assumption.
+      + repeat apply agree_put16_any. assumption.
       + rewrite !put16_pair_length by lia. lia.
     - destruct Hiff as [_ Hc]. specialize (Hc eq_refl). discriminate.
     - destruct Hiff as [Hc _]. specialize (Hc eq_refl). discriminate.
     - exact I.
   Qed.
 
-  Lemma sim2_questions : in_place_name -> prefix_determined_name -> same_success_name ->
-    forall qs b1 b2 off cm c, agree off b1 b2 -> length b1 = length b2 ->
-    rel_q (PQs qs b1 off cm c) (PQs qs b2 off cm c).
+  Lemma sim2_questions : in_place_name -> frame_name -> same_success_name ->
+    forall K qs b1 b2 off cm c, agree K b1 b2 -> length b1 = length b2 ->
+    rel_q K (PQs qs b1 off cm c) (PQs qs b2 off cm c).
   Proof.
-    intros Hn Hd Hs. induction qs as [|q r IH]; intros b1 b2 off cm c Ha Hl.
+    intros Hn Hd Hs K. induction qs as [|q r IH]; intros b1 b2 off cm c Ha Hl.
     - cbn. auto.
     - cbn [pooled_questions].
-      pose proof (sim2_question Hn Hd Hs q b1 b2 off cm c Ha Hl) as Hq. unfold rel_q in Hq.
+      pose proof (sim2_question Hn Hd Hs K q b1 b2 off cm c Ha Hl) as Hq. unfold rel_q in Hq.
       destruct (PQ q b1 off cm c) as [[[o1 x1] c1]|]; destruct (PQ q b2 off cm c) as [[[o2 x2] c2]|]; try contradiction.
       + destruct Hq as (-> & -> & Hag & Hl2). apply IH; assumption.
       + exact I.
   Qed.
 
-  Lemma sim2_records : in_place_rr -> prefix_determined_rr -> same_success_rr ->
-    forall opt rcode c ss w1 w2 m,
+  Lemma sim2_records : in_place_rr -> frame_rr -> same_success_rr ->
+    forall K opt rcode c ss w1 w2 m,
     pw_off Name Body CMap w1 = pw_off Name Body CMap w2 -> pw_cm Name Body CMap w1 = pw_cm Name Body CMap w2 ->
-    agree (pw_off Name Body CMap w1) (pw_out Name Body CMap w1) (pw_out Name Body CMap w2) ->
+    agree K (pw_out Name Body CMap w1) (pw_out Name Body CMap w2) ->
     length (pw_out Name Body CMap w1) = length (pw_out Name Body CMap w2) ->
     let r1 := PRec view_shim opt rcode c ss w1 m in
     let r2 := PRec view_shim opt rcode c ss w2 m in
@@ -469,17 +831,17 @@ Section PackProofs.
     (fst (fst r1) = true ->
      pw_off Name Body CMap (snd (fst r1)) = pw_off Name Body CMap (snd (fst r2)) /\
      pw_cm Name Body CMap (snd (fst r1)) = pw_cm Name Body CMap (snd (fst r2)) /\
-     agree (pw_off Name Body CMap (snd (fst r1))) (pw_out Name Body CMap (snd (fst r1))) (pw_out Name Body CMap (snd (fst r2)))).
+     agree K (pw_out Name Body CMap (snd (fst r1))) (pw_out Name Body CMap (snd (fst r2)))).
   Proof.
-    intros Hr Hd Hs opt rcode c. induction ss as [|s rest IH]; intros w1 w2 m Ho Hc Ha Hl.
+    intros Hr Hd Hs K opt rcode c. induction ss as [|s rest IH]; intros w1 w2 m Ho Hc Ha Hl.
     - cbn. auto.
     - cbn [pooled_records]. rewrite <- Ho, <- Hc, <- Hl.
       destruct (length (pw_out Name Body CMap w1) <=? pw_off Name Body CMap w1); [cbn; split; [reflexivity|discriminate]|].
       set (h := if is_selected opt (s_sh Name Body s) then _ else _).
-      pose proof (Hs h (s_body Name Body s) _ _ (pw_off Name Body CMap w1) (pw_cm Name Body CMap w1) c Ha Hl) as Hiff.
+      pose proof (Hs h (s_body Name Body s) _ _ (pw_off Name Body CMap w1) (pw_cm Name Body CMap w1) c Hl) as Hiff.
       destruct (pack_rr h (s_body Name Body s) (pw_out Name Body CMap w1) _ _ _) as [[[[he1 o1] x1] c1]|] eqn:E1;
         destruct (pack_rr h (s_body Name Body s) (pw_out Name Body CMap w2) _ _ _) as [[[[he2 o2] x2] c2]|] eqn:E2.
-      + destruct (Hd _ _ _ _ _ _ _ _ _ _ _ _ _ _ _ Ha E1 E2) as (-> & -> & Hag).
+      + destruct (Hd K _ _ _ _ _ _ _ _ _ _ _ _ _ _ _ Ha E1 E2) as (-> & -> & Hag).
         pose proof (Hr _ _ _ _ _ _ _ _ _ _ E1). pose proof (Hr _ _ _ _ _ _ _ _ _ _ E2).
         cbn [rrview_header]. cbn zeta beta iota.
         destruct ((o2 <=? _) || _); [cbn; split; [reflexivity|discriminate]|].
@@ -490,42 +852,52 @@ Section PackProofs.
   Qed.
 
   Theorem pool_state_noninterference_l :
-    in_place_name -> in_place_rr -> prefix_determined_name -> prefix_determined_rr ->
-    same_success_name -> same_success_rr ->
+    in_place_name -> in_place_rr -> frame_name -> frame_rr ->
+    same_success_name -> same_success_rr -> len_bounds_name -> len_bounds_rr ->
     forall st1 st2 m, Inv st1 -> Inv st2 ->
     tp_bytes Name Body CMap (TP st1 m) = tp_bytes Name Body CMap (TP st2 m) /\
     tp_handled Name Body CMap (TP st1 m) = tp_handled Name Body CMap (TP st2 m).
   Proof.
-    intros Hn Hr Hdn Hdr Hsn Hsr st1 st2 m (Hl1 & Hc1 & _) (Hl2 & Hc2 & _).
+    intros Hn Hr Hdn Hdr Hsn Hsr Hbn Hbr st1 st2 m (Hl1 & Hc1 & _) (Hl2 & Hc2 & _).
     unfold try_pack, try_pack_gen.
-    destruct (preflight _ _ _ _ _) as [| | | | |opt]; try (split; reflexivity).
+    destruct (preflight _ _ _ _ _) as [| | | | |opt] eqn:Epf; try (split; reflexivity).
+    apply preflight_proceed in Epf. destruct Epf as (_ & Hadm & Hsz & _).
     set (c := m_compress Name Body m && msg_compressible Name Body m).
     assert (E1 : (if c then Some match ps_cmap Name Body CMap st1 with None => cm_empty | Some x => x end else None)
                  = (if c then Some cm_empty else None)) by (destruct c; [destruct Hc1 as [->| ->]|]; reflexivity).
     assert (E2 : (if c then Some match ps_cmap Name Body CMap st2 with None => cm_empty | Some x => x end else None)
                  = (if c then Some cm_empty else None)) by (destruct c; [destruct Hc2 as [->| ->]|]; reflexivity).
     rewrite E1, E2. set (cm := if c then Some cm_empty else None).
-    unfold pack_into_gen.
-    assert (H12a : 12 <= length (ps_buf Name Body CMap st1)) by (rewrite Hl1; vm_compute; lia).
-    assert (H12b : 12 <= length (ps_buf Name Body CMap st2)) by (rewrite Hl2; vm_compute; lia).
+    unfold pack_into_gen. cbn [ps_buf ps_shim_rr ps_shim_hdr ps_opt].
+    set (K := Klen m).
+    set (z1 := zero_prefix K (ps_buf Name Body CMap st1)). set (z2 := zero_prefix K (ps_buf Name Body CMap st2)).
+    assert (Hz1 : length z1 = N.to_nat pack_buffer_size) by (subst z1; rewrite zero_prefix_length; assumption).
+    assert (Hz2 : length z2 = N.to_nat pack_buffer_size) by (subst z2; rewrite zero_prefix_length; assumption).
+    assert (HK : K <= N.to_nat pack_buffer_size) by (subst K; unfold scrub_len; lia).
+    assert (Hagz : agree K z1 z2) by (subst z1 z2; apply zero_prefix_agree_two; lia).
+    assert (H12a : 12 <= length z1) by (rewrite Hz1; vm_compute; lia).
+    assert (H12b : 12 <= length z2) by (rewrite Hz2; vm_compute; lia).
     repeat match goal with |- context [put16 (put16 (put16 (put16 (put16 (put16 ?b 0 ?a0) 2 ?a1) 4 ?a2) 6 ?a3) 8 ?a4) 10 ?a5] =>
       change (put16 (put16 (put16 (put16 (put16 (put16 b 0 a0) 2 a1) 4 a2) 6 a3) 8 a4) 10 a5) with (hdr6 b a0 a1 a2 a3 a4 a5) end.
-    match goal with |- context [hdr6 (ps_buf Name Body CMap st1) ?a0 ?a1 ?a2 ?a3 ?a4 ?a5] =>
-      set (p1 := hdr6 (ps_buf Name Body CMap st1) a0 a1 a2 a3 a4 a5);
-      set (p2 := hdr6 (ps_buf Name Body CMap st2) a0 a1 a2 a3 a4 a5);
-      assert (Hag : agree 12 p1 p2) by (subst p1 p2; apply hdr6_agree; assumption);
-      assert (Hlen : length p1 = length p2) by (subst p1 p2; rewrite !hdr6_length by assumption; lia)
+    match goal with |- context [hdr6 z1 ?a0 ?a1 ?a2 ?a3 ?a4 ?a5] =>
+      set (p1 := hdr6 z1 a0 a1 a2 a3 a4 a5);
+      set (p2 := hdr6 z2 a0 a1 a2 a3 a4 a5);
+      assert (Hag : agree K p1 p2) by (subst p1 p2; apply hdr6_agree_any; assumption);
+      assert (Hlen : length p1 = length p2) by (subst p1 p2; rewrite !hdr6_length by assumption; lia);
+      assert (Hlp1 : length p1 = length z1) by (subst p1; apply hdr6_length; assumption)
     end.
     change (N.to_nat header_len) with 12.
-    pose proof (sim2_questions Hn Hdn Hsn (m_question Name Body m) p1 p2 12 cm c Hag Hlen) as Hq. unfold rel_q in Hq.
-    destruct (PQs (m_question Name Body m) p1 12 cm c) as [[[o1 x1] c1]|];
+    pose proof (sim2_questions Hn Hdn Hsn K (m_question Name Body m) p1 p2 12 cm c Hag Hlen) as Hq. unfold rel_q in Hq.
+    destruct (PQs (m_question Name Body m) p1 12 cm c) as [[[o1 x1] c1]|] eqn:EQ1;
       destruct (PQs (m_question Name Body m) p2 12 cm c) as [[[o2 x2] c2]|]; try contradiction.
     2:{ cbn. split; reflexivity. }
     destruct Hq as (-> & -> & Hagq & Hlq).
+    pose proof (pooled_questions_adv Hbn _ _ _ _ _ _ _ _ EQ1) as Hadvq.
     match goal with |- context [PRec view_shim opt ?rc c ?ss ?w1 m] =>
       match goal with |- context [PRec view_shim opt rc c ss ?w2 m] =>
         lazymatch w1 with w2 => fail | _ =>
-        pose proof (sim2_records Hr Hdr Hsr opt rc c ss w1 w2 m eq_refl eq_refl Hagq Hlq) as Hrec end end end.
+        pose proof (sim2_records Hr Hdr Hsr K opt rc c ss w1 w2 m eq_refl eq_refl Hagq Hlq) as Hrec;
+        pose proof (pooled_records_adv Hbr view_shim opt rc c ss w1 m) as Hadvr end end end.
     cbn zeta in Hrec.
     match type of Hrec with context [PRec view_shim opt ?rc c ?ss ?w1 m] =>
       destruct (PRec view_shim opt rc c ss w1 m) as [[ok1 wa] ma] end.
@@ -534,7 +906,15 @@ Section PackProofs.
     cbn [fst snd] in Hrec. destruct Hrec as [<- Hrec].
     destruct ok1; cbn; [|split; reflexivity].
     destruct (Hrec eq_refl) as (Ho & _ & Hagf). split; [|reflexivity].
-    unfold sl_bytes. cbn. rewrite <- Ho. f_equal. exact Hagf.
+    unfold sl_bytes. cbn. rewrite <- Ho. f_equal.
+    apply (agree_le K); [exact Hagf|].
+    (* the offset stays below Len(), which the window covers *)
+    specialize (Hadvr wa ma eq_refl). cbn [pw_off] in Hadvr.
+    assert (Hadm' : forallb admissible_rr (shapes Name Body (m_records Name Body m)) = true).
+    { unfold m_records, shapes. rewrite !map_app. exact Hadm. }
+    specialize (Hadvr Hadm').
+    assert (Hu : pw_off Name Body CMap wa <= msg_len Name Body q_len rr_len m) by (unfold msg_len; lia).
+    subst K. unfold scrub_len. lia.
   Qed.
 
   Lemma fresh_inv : Inv (fresh_state Name Body CMap name_zero).
@@ -569,11 +949,11 @@ Section PackProofs.
   Proof. intros l n x H E. rewrite Forall_forall in H. apply H. eapply nth_error_In; eassumption. Qed.
 
   Lemma sched_step_ok :
-    in_place_name -> in_place_rr -> prefix_determined_name -> prefix_determined_rr ->
-    same_success_name -> same_success_rr ->
+    in_place_name -> in_place_rr -> frame_name -> frame_rr ->
+    same_success_name -> same_success_rr -> len_bounds_name -> len_bounds_rr ->
     forall s e, sched_ok s -> sched_ok (Step s e).
   Proof.
-    intros Hn Hr Hdn Hdr Hsn Hsr s e (Hp & Hf & Ho). destruct e as [id m pick|k]; cbn [sched_step].
+    intros Hn Hr Hdn Hdr Hsn Hsr Hbn Hbr s e (Hp & Hf & Ho). destruct e as [id m pick|k]; cbn [sched_step].
     - destruct (nth_error (sc_pool Name Body CMap s) pick) as [st|] eqn:E; unfold sched_ok; cbn.
       + split; [apply Forall_remove_nth; assumption|]. split; [|assumption].
         apply Forall_app. split; [assumption|]. constructor; [|constructor]. cbn.
@@ -586,276 +966,17 @@ Section PackProofs.
       + constructor; [|assumption]. apply (try_pack_keeps_inv Hn Hr); assumption.
       + apply Forall_remove_nth; assumption.
       + apply Forall_app. split; [assumption|]. constructor; [|constructor]. cbn.
-        apply (pool_state_noninterference_l Hn Hr Hdn Hdr Hsn Hsr); [assumption|apply fresh_inv].
+        apply (pool_state_noninterference_l Hn Hr Hdn Hdr Hsn Hsr Hbn Hbr); [assumption|apply fresh_inv].
   Qed.
 
   Theorem schedule_outputs_l :
-    in_place_name -> in_place_rr -> prefix_determined_name -> prefix_determined_rr ->
-    same_success_name -> same_success_rr ->
+    in_place_name -> in_place_rr -> frame_name -> frame_rr ->
+    same_success_name -> same_success_rr -> len_bounds_name -> len_bounds_rr ->
     forall es s, sched_ok s -> sched_ok (Run es s).
   Proof.
-    intros Hn Hr Hdn Hdr Hsn Hsr. unfold sched_run.
+    intros Hn Hr Hdn Hdr Hsn Hsr Hbn Hbr. unfold sched_run.
     induction es as [|e r IH]; intros s H; [exact H|].
-    cbn [fold_left]. apply IH. apply (sched_step_ok Hn Hr Hdn Hdr Hsn Hsr); assumption.
-  Qed.
-
-  (* ---------------------------------------------------------------- *)
-  (** ** ... and the library does pack what the pooled packer packed *)
-
-  Lemma admissible_not_nil : forall s, admissible_rr s = true -> sh_is_nil s = false /\ sh_typed_nil s = false.
-  Proof.
-    intros s H. unfold admissible_rr in H. unfold sh_typed_nil. unfold sh_is_nil in *.
-    destruct (d_nil (sh_dyn s)) eqn:En; [discriminate|]. split; [reflexivity|].
-    assert (Ho : library_owned (sh_dyn s) = true).
-    { destruct (sh_kind s); try discriminate; destruct (library_owned (sh_dyn s)); auto; discriminate. }
-    unfold library_owned in Ho. rewrite En in Ho.
-    destruct (d_ptr (sh_dyn s) && d_ptr_nil (sh_dyn s)) eqn:E; [discriminate|].
-    cbn. destruct (d_ptr (sh_dyn s)), (d_ptr_nil (sh_dyn s)); auto; discriminate.
-  Qed.
-
-  Notation qsum := (sum_len (fun q : question Name => q_len (q_name Name q))).
-  Notation rsum := (sum_len (slot_len Name Body rr_len)).
-
-  Lemma ex_question : in_place_name -> prefix_determined_name -> sized_name ->
-    forall q pout lout off cm c poff pout' pcm,
-    agree off pout lout ->
-    PQ q pout off cm c = Some (poff, pout', pcm) ->
-    off + q_len (q_name Name q) < length lout ->
-    exists lout', LQ q lout off cm c = Some (poff, lout', pcm) /\ agree poff pout' lout' /\
-                  length lout' = length lout /\ poff <= off + q_len (q_name Name q).
-  Proof.
-    intros Hn Hd Hz q pout lout off cm c poff pout' pcm Ha HP Hroom.
-    unfold pooled_question in HP. unfold lib_question.
-    destruct (pack_name (q_name Name q) pout off cm c) as [[[o1 b1] cm1]|] eqn:E1; [|discriminate].
-    destruct (Hz _ _ _ _ _ _ _ _ E1) as [Hb Hfit].
-    specialize (Hfit lout Ha Hroom).
-    destruct (pack_name (q_name Name q) lout off cm c) as [[[o2 b2] cm2]|] eqn:E2; [|congruence].
-    destruct (Hd _ _ _ _ _ _ _ _ _ _ _ _ Ha E1 E2) as (-> & -> & Hag).
-    pose proof (Hn _ _ _ _ _ _ _ _ E1) as Hl1. pose proof (Hn _ _ _ _ _ _ _ _ E2) as Hl2.
-    change (N.to_nat question_fixed_len) with 4 in HP.
-    destruct (Nat.ltb_spec (length pout) (o2 + 4)); [discriminate|]. inversion HP; subst; clear HP.
-    unfold lib_pack_u16.
-    destruct (Nat.ltb_spec (length b2) (o2 + 2)); [lia|].
-    rewrite put16_length by lia.
-    destruct (Nat.ltb_spec (length b2) (o2 + 2 + 2)); [lia|].
-    exists (put16 (put16 b2 o2 (q_type Name q)) (o2 + 2) (q_class Name q)).
-    replace (o2 + 2 + 2) with (o2 + 4) by lia.
-    split; [reflexivity|]. split; [apply agree_put16_pair; try lia; assumption|].
-    split; [rewrite put16_pair_length by lia; lia|lia].
-  Qed.
-
-  Lemma ex_questions : in_place_name -> prefix_determined_name -> sized_name ->
-    forall qs pout lout off cm c poff pout' pcm,
-    agree off pout lout ->
-    PQs qs pout off cm c = Some (poff, pout', pcm) ->
-    off + qsum qs < length lout ->
-    exists lout', LQs qs lout off cm c = Some (poff, lout', pcm) /\ agree poff pout' lout' /\
-                  length lout' = length lout /\ poff <= off + qsum qs.
-  Proof.
-    intros Hn Hd Hz. induction qs as [|q r IH]; intros pout lout off cm c poff pout' pcm Ha HP Hroom.
-    - cbn in HP. inversion HP; subst. exists lout. cbn. repeat split; auto. lia.
-    - cbn [pooled_questions] in HP. cbn [sum_len fold_right] in Hroom.
-      destruct (PQ q pout off cm c) as [[[o1 b1] cm1]|] eqn:E1; [|discriminate].
-      destruct (ex_question Hn Hd Hz _ _ _ _ _ _ _ _ _ Ha E1 ltac:(unfold sum_len in *; lia)) as (l1 & EL & Hag & Hl & Hb).
-      assert (Hroom' : o1 + qsum r < length l1) by (unfold sum_len in *; lia).
-      destruct (IH _ _ _ _ _ _ _ _ Hag HP Hroom') as (l2 & EL2 & Hag2 & Hl2 & Hb2).
-      exists l2. cbn [lib_questions]. rewrite EL. split; [exact EL2|]. split; [assumption|].
-      split; [lia|]. cbn [sum_len fold_right]. unfold sum_len in *. lia.
-  Qed.
-
-  Lemma ex_records : in_place_rr -> prefix_determined_rr -> sized_rr ->
-    forall v opt rcode c ss w m w' m' lout,
-    PRec v opt rcode c ss w m = (true, w', m') ->
-    agree (pw_off Name Body CMap w) (pw_out Name Body CMap w) lout ->
-    forallb admissible_rr (shapes Name Body ss) = true ->
-    pw_off Name Body CMap w + rsum ss < length lout ->
-    exists lout',
-      LRec c (lib_rewrite opt rcode ss) lout (pw_off Name Body CMap w) (pw_cm Name Body CMap w) =
-        FOk CMap lout' (pw_off Name Body CMap w') (pw_cm Name Body CMap w') /\
-      agree (pw_off Name Body CMap w') (pw_out Name Body CMap w') lout' /\
-      length lout' = length lout /\ pw_off Name Body CMap w' <= pw_off Name Body CMap w + rsum ss.
-  Proof.
-    intros Hr Hd Hz v opt rcode c. induction ss as [|s rest IH]; intros w m w' m' lout HP Ha Hadm Hroom.
-    - cbn in HP. inversion HP; subst. exists lout. cbn. repeat split; auto. lia.
-    - cbn [pooled_records] in HP. unfold lib_rewrite, upd_where. cbn [map lib_records].
-      fold (upd_where Name Body (fun s => is_selected opt (s_sh Name Body s))
-              (fun s => slot_set_ttl Name Body (lib_ext_ttl (sh_ttl (s_sh Name Body s)) rcode) s) rest).
-      fold (lib_rewrite opt rcode rest).
-      cbn [shapes map forallb] in Hadm. apply andb_true_iff in Hadm. destruct Hadm as [Hs Hadm].
-      destruct (admissible_not_nil _ Hs) as [Hnil Htn].
-      destruct (length (pw_out Name Body CMap w) <=? pw_off Name Body CMap w); [discriminate|].
-      assert (Hh : s_hdr Name Body (if is_selected opt (s_sh Name Body s)
-                                    then slot_set_ttl Name Body (lib_ext_ttl (sh_ttl (s_sh Name Body s)) rcode) s else s)
-                   = (if is_selected opt (s_sh Name Body s)
-                      then set_ttl Name (s_hdr Name Body s) (ext_ttl (rh_ttl Name (s_hdr Name Body s)) rcode)
-                      else s_hdr Name Body s)).
-      { destruct (is_selected opt (s_sh Name Body s)); [|reflexivity].
-        unfold s_hdr, slot_set_ttl, set_ttl. cbn. rewrite ext_rcode_eq_lib_all_l. reflexivity. }
-      assert (Hb : s_body Name Body (if is_selected opt (s_sh Name Body s)
-                                     then slot_set_ttl Name Body (lib_ext_ttl (sh_ttl (s_sh Name Body s)) rcode) s else s)
-                   = s_body Name Body s) by (destruct (is_selected opt (s_sh Name Body s)); reflexivity).
-      assert (Hn1 : sh_is_nil (s_sh Name Body (if is_selected opt (s_sh Name Body s)
-                                     then slot_set_ttl Name Body (lib_ext_ttl (sh_ttl (s_sh Name Body s)) rcode) s else s)) = false)
-        by (destruct (is_selected opt (s_sh Name Body s)); exact Hnil).
-      assert (Hn2 : sh_typed_nil (s_sh Name Body (if is_selected opt (s_sh Name Body s)
-                                     then slot_set_ttl Name Body (lib_ext_ttl (sh_ttl (s_sh Name Body s)) rcode) s else s)) = false)
-        by (destruct (is_selected opt (s_sh Name Body s)); exact Htn).
-      rewrite Hn1, Hn2, Hh, Hb.
-      set (h := if is_selected opt (s_sh Name Body s) then _ else _) in *.
-      assert (Hname : rh_name Name h = s_name Name Body s) by (subst h; destruct (is_selected opt (s_sh Name Body s)); reflexivity).
-      cbn [sum_len fold_right] in Hroom. unfold slot_len in Hroom at 1. rewrite Hnil in Hroom.
-      destruct (pack_rr h (s_body Name Body s) (pw_out Name Body CMap w) _ _ _) as [[[[he1 o1] b1] cm1]|] eqn:E1; [|discriminate].
-      destruct (Hz _ _ _ _ _ _ _ _ _ _ E1) as [Hbound Hfit]. rewrite Hname in Hbound, Hfit.
-      specialize (Hfit lout Ha ltac:(unfold sum_len in *; lia)).
-      destruct (pack_rr h (s_body Name Body s) lout _ _ _) as [[[[he2 o2] b2] cm2]|] eqn:E2; [|congruence].
-      destruct (Hd _ _ _ _ _ _ _ _ _ _ _ _ _ _ _ Ha E1 E2) as (-> & -> & Hag).
-      pose proof (Hr _ _ _ _ _ _ _ _ _ _ E2) as Hl2.
-      assert (Hstep : forall shim mm,
-                 PRec v opt rcode c rest (mk_pwork Name Body CMap b1 o2 cm2 None shim
-                                            (if is_selected opt (s_sh Name Body s) then Some (h, s_body Name Body s) else pw_opt Name Body CMap w)) mm
-                 = (true, w', m') ->
-                 exists lout', LRec c (lib_rewrite opt rcode rest) b2 o2 cm2 =
-                                 FOk CMap lout' (pw_off Name Body CMap w') (pw_cm Name Body CMap w') /\
-                               agree (pw_off Name Body CMap w') (pw_out Name Body CMap w') lout' /\
-                               length lout' = length lout /\
-                               pw_off Name Body CMap w' <= pw_off Name Body CMap w + (rr_len (s_name Name Body s) (s_body Name Body s) + rsum rest)).
-      { intros shim mm HP'.
-        assert (Hroom' : o2 + rsum rest < length b2) by (unfold sum_len in *; lia).
-        destruct (IH _ _ _ _ b2 HP' Hag Hadm Hroom') as (l' & EL & Hag' & Hl' & Hb').
-        exists l'. cbn [pw_off pw_cm] in EL, Hb'. split; [exact EL|]. split; [exact Hag'|].
-        split; [lia|]. unfold sum_len in *. lia. }
-      cbn [sum_len fold_right]. unfold slot_len at 1. rewrite Hnil.
-      destruct (v s); cbn zeta beta iota in HP;
-        (destruct ((o2 <=? _) || _); [discriminate|]; eapply Hstep; exact HP).
-  Qed.
-
-  Lemma rsum_app : forall l1 l2, rsum (l1 ++ l2) = rsum l1 + rsum l2.
-  Proof. induction l1 as [|x r IH]; intros l2; cbn; [reflexivity|]. unfold sum_len in *. rewrite IH. lia. Qed.
-
-  Lemma rsum_rewrite : forall opt rcode l, rsum (lib_rewrite opt rcode l) = rsum l.
-  Proof.
-    intros opt rcode. induction l as [|s r IH]; [reflexivity|].
-    unfold lib_rewrite, upd_where in *. cbn [map sum_len fold_right]. unfold sum_len in *. rewrite IH. f_equal.
-    destruct (is_selected opt (s_sh Name Body s)); reflexivity.
-  Qed.
-
-  Lemma typed_nil_rewrite : forall opt rcode l,
-    forallb admissible_rr (shapes Name Body l) = true ->
-    existsb (fun s => sh_typed_nil (s_sh Name Body s)) (lib_rewrite opt rcode l) = false.
-  Proof.
-    intros opt rcode. induction l as [|s r IH]; intros H; [reflexivity|].
-    cbn [shapes map forallb] in H. apply andb_true_iff in H. destruct H as [Hs H].
-    unfold lib_rewrite, upd_where in *. cbn [map existsb]. rewrite (IH H), orb_false_r.
-    destruct (admissible_not_nil _ Hs) as [_ Ht].
-    destruct (is_selected opt (s_sh Name Body s)); exact Ht.
-  Qed.
-
-  Lemma forallb_shapes_app : forall (a b c : list slotT),
-    forallb admissible_rr (shapes Name Body a ++ shapes Name Body b ++ shapes Name Body c) = true ->
-    forallb admissible_rr (shapes Name Body a) = true /\ forallb admissible_rr (shapes Name Body b) = true /\
-    forallb admissible_rr (shapes Name Body c) = true.
-  Proof.
-    intros a b c H. rewrite !forallb_app in H. apply andb_true_iff in H. destruct H as [Ha H].
-    apply andb_true_iff in H. destruct H. auto.
-  Qed.
-
-  Lemma ex_body : in_place_name -> in_place_rr -> prefix_determined_name -> prefix_determined_rr ->
-    sized_name -> sized_rr ->
-    forall v st m opt cm c w m1,
-    12 <= length (ps_buf Name Body CMap st) ->
-    forallb admissible_rr (shapes Name Body (m_answer Name Body m) ++ shapes Name Body (m_ns Name Body m) ++
-                           shapes Name Body (m_extra Name Body m)) = true ->
-    PInto v st m opt cm c = (true, w, m1) ->
-    exists m',
-      LFrom (lib_set_ext Name Body opt (h_rcode (m_hdr Name Body m)) m) c cm =
-        (LOk (firstn (pw_off Name Body CMap w) (pw_out Name Body CMap w)), m').
-  Proof.
-    intros Hn Hr Hdn Hdr Hzn Hzr v st m opt cm c w m1 H12 Hadm HP.
-    destruct (forallb_shapes_app _ _ _ Hadm) as (Ha1 & Ha2 & Ha3).
-    unfold pack_into_gen in HP. unfold lib_pack_from.
-    set (rc := h_rcode (m_hdr Name Body m)) in *.
-    set (mL := lib_set_ext Name Body opt rc m).
-    assert (Hhdr : m_hdr Name Body mL = m_hdr Name Body m) by reflexivity.
-    assert (Hq : m_question Name Body mL = m_question Name Body m) by reflexivity.
-    assert (Han : m_answer Name Body mL = lib_rewrite opt rc (m_answer Name Body m)) by reflexivity.
-    assert (Hns : m_ns Name Body mL = lib_rewrite opt rc (m_ns Name Body m)) by reflexivity.
-    assert (Hex : m_extra Name Body mL = lib_rewrite opt rc (m_extra Name Body m)) by reflexivity.
-    assert (Htn : has_typed_nil Name Body mL = false).
-    { unfold has_typed_nil, m_records. rewrite Han, Hns, Hex. rewrite !existsb_app.
-      rewrite !typed_nil_rewrite by assumption. reflexivity. }
-    rewrite Htn.
-    assert (Hlen : msg_len Name Body q_len rr_len mL =
-                   12 + qsum (m_question Name Body m) + (rsum (m_answer Name Body m) + (rsum (m_ns Name Body m) + rsum (m_extra Name Body m)))).
-    { unfold msg_len, m_records. rewrite Hq, Han, Hns, Hex. rewrite !rsum_app, !rsum_rewrite. reflexivity. }
-    set (lbuf := repeat 0%N (msg_len Name Body q_len rr_len mL + 1)).
-    assert (HlL : length lbuf = msg_len Name Body q_len rr_len mL + 1) by (subst lbuf; apply repeat_length).
-    rewrite Hhdr, Hq, Han, Hns, Hex.
-    unfold count16. unfold lib_rewrite at 1 2 3. rewrite !upd_where_length.
-    fold (@count16 slotT (m_answer Name Body m)) (@count16 slotT (m_ns Name Body m)) (@count16 slotT (m_extra Name Body m))
-         (@count16 (question Name) (m_question Name Body m)).
-    rewrite <- msg_bits_eq_lib_l.
-    rewrite lib_header_ok by lia.
-    set (pb := ps_buf Name Body CMap st) in *.
-    match type of HP with context [put16 (put16 (put16 (put16 (put16 (put16 ?b 0 ?a0) 2 ?a1) 4 ?a2) 6 ?a3) 8 ?a4) 10 ?a5] =>
-      change (put16 (put16 (put16 (put16 (put16 (put16 b 0 a0) 2 a1) 4 a2) 6 a3) 8 a4) 10 a5) with (hdr6 b a0 a1 a2 a3 a4 a5) in HP;
-      set (p6 := hdr6 b a0 a1 a2 a3 a4 a5) in HP;
-      set (l6 := hdr6 lbuf a0 a1 a2 a3 a4 a5);
-      assert (Hag6 : agree 12 p6 l6) by (subst p6 l6; apply hdr6_agree; lia);
-      assert (Hl6 : length l6 = length lbuf) by (subst l6; apply hdr6_length; lia)
-    end.
-    change (N.to_nat header_len) with 12 in HP.
-    destruct (PQs (m_question Name Body m) p6 12 cm c) as [[[poff pout] pcm]|] eqn:EPQ; [|discriminate].
-    destruct (ex_questions Hn Hdn Hzn _ _ _ _ _ _ _ _ _ Hag6 EPQ ltac:(lia)) as (lq & ELQ & Hagq & Hlq & Hbq).
-    rewrite ELQ.
-    unfold m_records in HP. rewrite pooled_records_app in HP.
-    destruct (PRec v opt rc c (m_answer Name Body m) _ m) as [[ok1 w1] mm1] eqn:EP1.
-    destruct ok1; [|discriminate].
-    rewrite pooled_records_app in HP.
-    destruct (PRec v opt rc c (m_ns Name Body m) w1 mm1) as [[ok2 w2] mm2] eqn:EP2.
-    destruct ok2; [|discriminate].
-    destruct (ex_records Hr Hdr Hzr _ _ _ _ _ _ _ _ _ lq EP1 Hagq Ha1 ltac:(cbn; lia)) as (l1 & EL1 & Hag1 & Hl1 & Hb1).
-    cbn [pw_off pw_cm] in EL1, Hb1. rewrite EL1.
-    destruct (ex_records Hr Hdr Hzr _ _ _ _ _ _ _ _ _ l1 EP2 Hag1 Ha2 ltac:(lia)) as (l2 & EL2 & Hag2 & Hl2 & Hb2).
-    rewrite EL2.
-    destruct (ex_records Hr Hdr Hzr _ _ _ _ _ _ _ _ _ l2 HP Hag2 Ha3 ltac:(lia)) as (l3 & EL3 & Hag3 & Hl3 & Hb3).
-    rewrite EL3. eexists. f_equal. f_equal. symmetry. exact Hag3.
-  Qed.
-
-  Theorem trypack_then_library_packs_l :
-    in_place_name -> in_place_rr -> prefix_determined_name -> prefix_determined_rr ->
-    sized_name -> sized_rr ->
-    forall st m bytes, Inv st ->
-    tp_bytes Name Body CMap (TP st m) = Some bytes ->
-    exists m', LP m = (LOk bytes, m').
-  Proof.
-    intros Hn Hr Hdn Hdr Hzn Hzr st m bytes HI HT.
-    unfold try_pack, try_pack_gen in HT.
-    destruct (preflight _ _ _ _ _) as [| | | | |opt] eqn:Epf; try discriminate.
-    apply preflight_proceed in Epf. destruct Epf as (Hrc & Hadm & Hsz & Hsel).
-    destruct HI as (Hlen & Hcm & _).
-    set (c := m_compress Name Body m && msg_compressible Name Body m) in *.
-    assert (Hcmv : (if c then Some match ps_cmap Name Body CMap st with None => cm_empty | Some x => x end else None)
-                   = (if c then Some cm_empty else None)).
-    { destruct c; [|reflexivity]. destruct Hcm as [->| ->]; reflexivity. }
-    rewrite Hcmv in HT.
-    destruct (PInto view_shim st m opt _ c) as [[ok w] m1] eqn:EP.
-    destruct ok; [|discriminate]. cbn in HT. inversion HT; subst bytes; clear HT.
-    unfold sl_bytes. cbn.
-    unfold lib_pack.
-    change rcode_min with 0%Z in Hrc. change rcode_max with 4095%Z in Hrc.
-    replace ((h_rcode (m_hdr Name Body m) <? 0)%Z || (4095 <? h_rcode (m_hdr Name Body m))%Z) with false
-      by (symmetry; apply orb_false_iff; split; [apply Z.ltb_ge|apply Z.ltb_ge]; lia).
-    rewrite <- select_opt_eq_lib_l.
-    change (lib_msg_compressible Name Body m) with (msg_compressible Name Body m). fold c.
-    assert (H12 : 12 <= length (ps_buf Name Body CMap st)) by (rewrite Hlen; vm_compute; lia).
-    destruct (select_opt (shapes Name Body (m_extra Name Body m))) as [|i|] eqn:Es; [| |contradiction].
-    - destruct Hsel as [-> Hp]. change rcode_plain_max with 15%Z in Hp.
-      replace (15 <? h_rcode (m_hdr Name Body m))%Z with false by (symmetry; apply Z.ltb_ge; lia).
-      destruct (ex_body Hn Hr Hdn Hdr Hzn Hzr _ _ _ _ _ _ _ _ H12 Hadm EP) as [m' Hm'].
-      rewrite lib_set_ext_none in Hm'. exists m'. exact Hm'.
-    - destruct Hsel as (x & Hx & ->).
-      apply nth_error_shapes in Hx. destruct Hx as (o & Ho & <-). rewrite Ho.
-      eapply (ex_body Hn Hr Hdn Hdr Hzn Hzr); eassumption.
+    cbn [fold_left]. apply IH. apply (sched_step_ok Hn Hr Hdn Hdr Hsn Hsr Hbn Hbr); assumption.
   Qed.
 
 End PackProofs.
